@@ -132,3 +132,1552 @@ Qed.
 
 Lemma client_steps : forall cf c s s' l, step_client cf c s = Some (s', l) -> s_steps s' = s_steps s.
 Proof. intros cf c s s' l H. client_cases H; cbn; try reflexivity; unfold do_unp_set; destruct (s_rpc s); reflexivity. Qed.
+
+(* ------------------------------------------------------------------------------------------ *)
+(* one step, decomposed                                                                        *)
+(* ------------------------------------------------------------------------------------------ *)
+Lemma step_elim : forall cf s t s' l, step cf s t = (s', l) ->
+  (s' = s /\ l = [TSkip t] /\ (t = TRun -> step_runner cf s = None)) \/
+  (exists s1 a, t = TRun /\ step_runner cf s = Some (s1, a) /\
+     ((s' = s1 /\ l = [TR a] /\ (s_cpc s1 = CJoining -> s_alive s1 = true)) \/
+      (s_cpc s1 = CJoining /\ s_alive s1 = false /\ s' = ret O CStop OK s1 /\ l = [TR a; TRet O CStop OK]))) \/
+  (t = TCli O /\ step_client cf O s = Some (s', l)).
+Proof.
+  intros cf s t s' l H. unfold step in H. destruct t as [|c].
+  - destruct (step_runner cf s) as [[s1 a]|] eqn:Er.
+    + right; left. exists s1, a. split; [reflexivity|]. split; [reflexivity|].
+      unfold wake_join in H. destruct (s_cpc s1) eqn:Ec;
+        try (inv H; left; split; [reflexivity|split; [reflexivity|discriminate]]).
+      destruct (s_alive s1) eqn:Ea; inv H; [left; split; [reflexivity|split; [reflexivity|intros _; reflexivity]]|].
+      right. repeat split; reflexivity.
+    + inv H. left; split; [reflexivity|split; [reflexivity|intros _; reflexivity]].
+  - destruct c as [|c].
+    + destruct (step_client cf O s) as [[s1 l1]|] eqn:Ec.
+      * inv H. right; right. split; reflexivity.
+      * inv H. left; split; [reflexivity|split; [reflexivity|discriminate]].
+    + inv H. left; split; [reflexivity|split; [reflexivity|discriminate]].
+Qed.
+
+(* ------------------------------------------------------------------------------------------ *)
+(* base invariant: thread bookkeeping                                                          *)
+(* ------------------------------------------------------------------------------------------ *)
+Definition rpc_dead (p : rpc) : bool := match p with PNotStarted | PDone => true | _ => false end.
+
+Definition base_inv (s : state) : Prop :=
+  (s_started s = false <-> s_rpc s = PNotStarted) /\ s_alive s = negb (rpc_dead (s_rpc s)).
+
+Lemma base_init : forall cf, base_inv (init_state cf).
+Proof. intros cf. split; [split; reflexivity|reflexivity]. Qed.
+
+Lemma base_runner : forall cf s s' a, step_runner cf s = Some (s', a) -> base_inv s -> base_inv s'.
+Proof.
+  intros cf s s' a H [[B1 B1'] B2]. unfold base_inv.
+  runner_cases H; cbn; unfold after_step; cbn; rewrite ?Epc in *; cbn in *;
+    try (destruct (cf_all cf)); cbn;
+    (split; [split; intros X; try discriminate; try (apply B1 in X; discriminate) | try assumption; try reflexivity]).
+Qed.
+
+Lemma base_ret : forall c op o s, base_inv (ret c op o s) <-> base_inv s.
+Proof. intros. unfold base_inv, ret; cbn. tauto. Qed.
+
+(* effect of a client step on what the runner thread owns or reads *)
+Definition client_effect (s s' : state) : Prop :=
+  s_steps s' = s_steps s /\ s_pend s' = s_pend s /\ s_init s' = s_init s /\ s_fin s' = s_fin s /\
+  s_itime s' = s_itime s /\
+  ((s_rpc s' = s_rpc s /\ s_started s' = s_started s /\ s_alive s' = s_alive s) \/
+   (s_rpc s = PWaiting /\ s_rpc s' = PTestFinal /\ s_started s' = s_started s /\ s_alive s' = s_alive s /\
+    s_unp s' = true) \/
+   (s_started s = false /\ s_rpc s' = PBeforeRun /\ s_started s' = true /\ s_alive s' = true /\
+    s_cpc s = CStart3)).
+
+Lemma client_effect_step : forall cf c s s' l, step_client cf c s = Some (s', l) -> client_effect s s'.
+Proof.
+  intros cf c s s' l H. unfold client_effect.
+  client_cases H; cbn; unfold do_unp_set;
+    try match goal with |- context [match s_rpc ?x with _ => _ end] => destruct (s_rpc x) eqn:Epc end; cbn;
+    repeat (split; [reflexivity|]);
+    first [ left; repeat split; (reflexivity || assumption)
+          | right; left; repeat split; (reflexivity || assumption)
+          | right; right; repeat split; (reflexivity || assumption) ].
+Qed.
+
+Lemma base_client : forall cf c s s' l, step_client cf c s = Some (s', l) -> base_inv s -> base_inv s'.
+Proof.
+  intros cf c s s' l H [[B1 B1'] B2]. unfold base_inv.
+  destruct (client_effect_step _ _ _ _ _ H) as (_ & _ & _ & _ & _ & [(E1 & E2 & E3) | [(E0 & E1 & E2 & E3 & _) | (E0 & E1 & E2 & E3 & _)]]).
+  - rewrite E1, E2, E3. tauto.
+  - rewrite E1, E2, E3, B2, E0. cbn. split; [|reflexivity]. split; intros X; try discriminate.
+    apply B1 in X. rewrite E0 in X. discriminate.
+  - rewrite E1, E2, E3. cbn. split; [|reflexivity]. split; intros X; discriminate.
+Qed.
+
+Lemma base_step : forall cf s t s' l, step cf s t = (s', l) -> base_inv s -> base_inv s'.
+Proof.
+  intros cf s t s' l H B.
+  destruct (step_elim _ _ _ _ _ H) as [(-> & -> & Hsk) | [(s1 & a & -> & Hr & [(-> & -> & Hnw) | (Hc & Ha & -> & ->)]) | [-> Hc]]].
+  - exact B.
+  - eapply base_runner; eauto.
+  - apply base_ret. eapply base_runner; eauto.
+  - eapply base_client; eauto.
+Qed.
+
+(* ------------------------------------------------------------------------------------------ *)
+(* C20_report                                                                                  *)
+(* ------------------------------------------------------------------------------------------ *)
+Definition in_cycle (p : rpc) : bool :=
+  match p with PExTime | PExPeek | PExPop | PAfterExec => true | _ => false end.
+
+(* macro steps executed in the cycle under way and not yet handed to after_execute *)
+Definition in_flight (s : state) : list mstep := if in_cycle (s_rpc s) then s_steps s else [].
+
+Definition report_inv (cf : config) (s : state) (tr : list titem) : Prop :=
+  base_inv s /\
+  executed tr = handed tr ++ in_flight s /\
+  (cf_all cf = false ->
+   Forall (fun l => length l <= 1)%nat (reports tr) /\
+   match s_rpc s with
+   | PExTime | PExPeek | PExPop => s_steps s = []
+   | PAfterExec => (length (s_steps s) <= 1)%nat
+   | _ => True
+   end).
+
+Lemma report_runner : forall cf s s' a tr,
+  step_runner cf s = Some (s', a) -> report_inv cf s tr -> report_inv cf s' (tr ++ [TR a]).
+Proof.
+  intros cf s s' a tr H (B & E & A).
+  split; [eapply base_runner; eauto|].
+  rewrite executed_app, handed_app, reports_app. unfold in_flight in *.
+  runner_cases H; cbn [in_cycle] in *; cbn; unfold after_step; cbn;
+    rewrite ?app_nil_r in *.
+  all: try match goal with |- context [if cf_all ?c then _ else _] => destruct (cf_all c) eqn:Eall; cbn end.
+  all: (split; [ rewrite E; rewrite <- ?app_assoc, ?app_nil_r; reflexivity | ]).
+  all: intros X; try discriminate; destruct (A X) as [A1 A2]; try (rewrite X; cbn); (split; [|try exact I; try assumption]).
+  all: try assumption.
+  all: try reflexivity.
+  all: try (rewrite A2; cbn; try reflexivity; lia).
+  apply Forall_app; split; [assumption|]. constructor; [assumption|constructor].
+Qed.
+
+Lemma report_ret : forall cf c op o s tr, report_inv cf (ret c op o s) tr <-> report_inv cf s tr.
+Proof. intros. unfold report_inv, base_inv, in_flight, ret; cbn. tauto. Qed.
+
+Lemma report_add_silent : forall cf s tr l, ractions l = [] -> report_inv cf s tr -> report_inv cf s (tr ++ l).
+Proof.
+  intros cf s tr l Hl (B & E & A). split; [exact B|].
+  rewrite executed_app, handed_app, reports_app.
+  rewrite (ractions_nil_executed _ Hl), (ractions_nil_handed _ Hl), (ractions_nil_reports _ Hl), !app_nil_r.
+  split; assumption.
+Qed.
+
+Lemma report_client : forall cf c s s' l tr,
+  step_client cf c s = Some (s', l) -> report_inv cf s tr -> report_inv cf s' (tr ++ l).
+Proof.
+  intros cf c s s' l tr H (B & E & A).
+  pose proof (client_no_ract _ _ _ _ _ H) as Hl.
+  pose proof (base_client _ _ _ _ _ H B) as B'.
+  destruct (client_effect_step _ _ _ _ _ H) as (Es & _ & _ & _ & _ & D).
+  split; [exact B'|].
+  rewrite executed_app, handed_app, reports_app.
+  rewrite (ractions_nil_executed _ Hl), (ractions_nil_handed _ Hl), (ractions_nil_reports _ Hl), !app_nil_r.
+  unfold in_flight in *. rewrite Es.
+  destruct D as [(E1 & _) | [(E0 & E1 & _) | (E0 & E1 & _)]].
+  - rewrite E1. split; assumption.
+  - rewrite E1. rewrite E0 in *. cbn in *. split; [assumption|]. intros X. destruct (A X). split; [assumption|exact I].
+  - destruct B as [[B1 _] _]. rewrite (B1 E0) in *. rewrite E1. cbn in *. split; [assumption|].
+    intros X. destruct (A X). split; [assumption|exact I].
+Qed.
+
+Lemma report_step : forall cf s tr t s' l,
+  report_inv cf s tr -> step cf s t = (s', l) -> report_inv cf s' (tr ++ l).
+Proof.
+  intros cf s tr t s' l R H.
+  destruct (step_elim _ _ _ _ _ H) as [(-> & -> & Hsk) | [(s1 & a & -> & Hr & [(-> & -> & Hnw) | (Hc & Ha & -> & ->)]) | [-> Hc]]].
+  - apply report_add_silent; [reflexivity|exact R].
+  - eapply report_runner; eauto.
+  - apply report_ret. change [TR a; TRet 0 CStop OK] with ([TR a] ++ [TRet 0 CStop OK]).
+    rewrite app_assoc. apply report_add_silent; [reflexivity|]. eapply report_runner; eauto.
+  - eapply report_client; eauto.
+Qed.
+
+Lemma report_init : forall cf, report_inv cf (init_state cf) [].
+Proof.
+  intros cf. split; [apply base_init|]. split; [reflexivity|]. intros _. split; [constructor|exact I].
+Qed.
+
+(* C20_report: under EVERY schedule, the concatenation of the lists handed to after_execute followed by the
+   steps of the cycle under way is exactly the sequence of macro steps executed on the runner thread (same
+   order, each once); without execute_all every handed list has at most one element; once the runner
+   thread has ended everything executed has been handed over. *)
+Theorem C20_report : forall cf sched s tr,
+  run_schedule cf sched = (s, tr) ->
+  executed tr = handed tr ++ in_flight s /\
+  (cf_all cf = false -> Forall (fun l => length l <= 1)%nat (reports tr)) /\
+  (s_rpc s = PDone -> executed tr = handed tr).
+Proof.
+  intros cf sched s tr H.
+  assert (R : report_inv cf s tr).
+  { eapply (run_schedule_inv cf (report_inv cf)); [apply report_step|apply report_init|exact H]. }
+  destruct R as (_ & E & A). split; [exact E|]. split.
+  - intros X. apply (A X).
+  - intros X. rewrite E. unfold in_flight. rewrite X. cbn. apply app_nil_r.
+Qed.
+
+(* ------------------------------------------------------------------------------------------ *)
+(* C20_hooks                                                                                   *)
+(* ------------------------------------------------------------------------------------------ *)
+Definition run_hook (a : ract) : bool := is_before_run a || is_after_run a.
+Definition no_run_hooks (m : list ract) : Prop := Forall (fun a => run_hook a = false) m.
+
+Inductive phase := Ph0 | Ph1 | Ph2.
+Definition phase_of (p : rpc) : phase :=
+  match p with PNotStarted | PBeforeRun => Ph0 | PDone => Ph2 | _ => Ph1 end.
+
+Definition hooks_shape (ph : phase) (l : list ract) : Prop :=
+  match ph with
+  | Ph0 => l = []
+  | Ph1 => exists m, l = ABeforeRun :: m /\ no_run_hooks m
+  | Ph2 => exists m, l = ABeforeRun :: m ++ [AAfterRun] /\ no_run_hooks m
+  end.
+
+Definition hooks_inv (s : state) (tr : list titem) : Prop :=
+  base_inv s /\ hooks_shape (phase_of (s_rpc s)) (ractions tr).
+
+Lemma hooks_runner : forall cf s s' a tr,
+  step_runner cf s = Some (s', a) -> hooks_inv s tr -> hooks_inv s' (tr ++ [TR a]).
+Proof.
+  intros cf s s' a tr H [B S]. split; [eapply base_runner; eauto|].
+  rewrite ractions_app. cbn [ractions].
+  runner_cases H; cbn; unfold after_step; cbn;
+    try match goal with |- context [if cf_all ?c then _ else _] => destruct (cf_all c); cbn end;
+    cbn in S.
+  all: try (destruct S as (m & -> & Hm)).
+  all: try (rewrite S; exists []; split; [reflexivity|constructor]).
+  all: try (eexists; split; [reflexivity|]; apply Forall_app; split; [exact Hm|constructor; [reflexivity|constructor]]).
+  exists m. split; [reflexivity|exact Hm].
+Qed.
+
+Lemma hooks_silent : forall s tr l, ractions l = [] -> hooks_inv s tr -> hooks_inv s (tr ++ l).
+Proof. intros s tr l Hl [B S]. split; [exact B|]. rewrite ractions_app, Hl, app_nil_r. exact S. Qed.
+
+Lemma hooks_ret : forall c op o s tr, hooks_inv (ret c op o s) tr <-> hooks_inv s tr.
+Proof. intros. unfold hooks_inv, base_inv, ret; cbn. tauto. Qed.
+
+Lemma hooks_client : forall cf c s s' l tr,
+  step_client cf c s = Some (s', l) -> hooks_inv s tr -> hooks_inv s' (tr ++ l).
+Proof.
+  intros cf c s s' l tr H [B S].
+  pose proof (client_no_ract _ _ _ _ _ H) as Hl.
+  split; [eapply base_client; eauto|]. rewrite ractions_app, Hl, app_nil_r.
+  destruct (client_effect_step _ _ _ _ _ H) as (_ & _ & _ & _ & _ & [(E1 & _) | [(E0 & E1 & _) | (E0 & E1 & _)]]).
+  - rewrite E1. exact S.
+  - rewrite E1. rewrite E0 in S. exact S.
+  - destruct B as [[B1 _] _]. rewrite (B1 E0) in S. rewrite E1. exact S.
+Qed.
+
+Lemma hooks_step : forall cf s tr t s' l, hooks_inv s tr -> step cf s t = (s', l) -> hooks_inv s' (tr ++ l).
+Proof.
+  intros cf s tr t s' l R H.
+  destruct (step_elim _ _ _ _ _ H) as [(-> & -> & Hsk) | [(s1 & a & -> & Hr & [(-> & -> & Hnw) | (Hc & Ha & -> & ->)]) | [-> Hc]]].
+  - apply hooks_silent; [reflexivity|exact R].
+  - eapply hooks_runner; eauto.
+  - apply hooks_ret. change [TR a; TRet 0 CStop OK] with ([TR a] ++ [TRet 0 CStop OK]).
+    rewrite app_assoc. apply hooks_silent; [reflexivity|]. eapply hooks_runner; eauto.
+  - eapply hooks_client; eauto.
+Qed.
+
+Lemma no_hooks_filter : forall m, no_run_hooks m ->
+  filter is_before_run m = [] /\ filter is_after_run m = [] /\ ~ In AAfterRun m.
+Proof.
+  induction m as [|a m IH]; intros H; [repeat split; auto|].
+  inv H. destruct (IH H3) as (F1 & F2 & F3). unfold run_hook in H2. apply orb_false_iff in H2. destruct H2 as [X Y].
+  cbn. rewrite X, Y. repeat split; auto. intros [Z|Z]; [subst a; discriminate|auto].
+Qed.
+
+Lemma last_unique : forall (x : ract) m, ~ In x m -> forall pre post, pre ++ x :: post = m ++ [x] -> post = [].
+Proof.
+  intros x m; induction m as [|y m IH]; intros Hn pre post E.
+  - destruct pre as [|p pre]; cbn in E; [inv E; reflexivity|].
+    inv E. destruct pre; discriminate.
+  - destruct pre as [|p pre]; cbn in E.
+    + inv E. exfalso. apply Hn. left; reflexivity.
+    + inv E. eapply IH; [|exact H1]. intros X; apply Hn; right; exact X.
+Qed.
+
+(* C20_hooks: under every schedule the runner thread's actions are: nothing (not started, or before_run
+   not yet called) | before_run, then actions that are neither before_run nor after_run | the same followed
+   by after_run as very last action, exactly when the thread has ended.  Hence before_run and after_run are
+   called at most once, first and last, and exactly once each if the thread ends. *)
+Theorem C20_hooks : forall cf sched s tr,
+  run_schedule cf sched = (s, tr) ->
+  (count_ract is_before_run tr <= 1)%nat /\ (count_ract is_after_run tr <= 1)%nat /\
+  (forall a rest, ractions tr = a :: rest -> a = ABeforeRun) /\
+  (forall pre post, ractions tr = pre ++ AAfterRun :: post -> post = [] /\ s_rpc s = PDone) /\
+  (s_rpc s = PDone -> count_ract is_before_run tr = 1%nat /\ count_ract is_after_run tr = 1%nat).
+Proof.
+  intros cf sched s tr H.
+  assert (R : hooks_inv s tr).
+  { eapply (run_schedule_inv cf hooks_inv); [intros; eapply hooks_step; eauto| |exact H].
+    split; [apply base_init|reflexivity]. }
+  destruct R as [_ S]. unfold count_ract.
+  destruct (phase_of (s_rpc s)) eqn:Eph; cbn in S.
+  - rewrite S. cbn. split; [lia|]. split; [lia|]. split; [discriminate|]. split.
+    + intros pre post E. destruct pre; discriminate.
+    + intros X; rewrite X in Eph; discriminate.
+  - destruct S as (m & -> & Hm). destruct (no_hooks_filter m Hm) as (F1 & F2 & F3).
+    cbn. rewrite F1, F2. cbn. split; [lia|]. split; [lia|]. split; [|split].
+    + intros a rest E. inv E. reflexivity.
+    + intros pre post E. exfalso. destruct pre as [|p pre]; inv E. apply F3.
+      apply in_or_app. right; left; reflexivity.
+    + intros X. rewrite X in Eph; discriminate.
+  - destruct S as (m & -> & Hm). destruct (no_hooks_filter m Hm) as (F1 & F2 & F3).
+    cbn. rewrite !filter_app, F1, F2. cbn. split; [lia|]. split; [lia|]. split; [|split].
+    + intros a rest E. inv E. reflexivity.
+    + intros pre post E. destruct pre as [|p pre]; inv E. split; [eapply last_unique; eauto|].
+      destruct (s_rpc s); try discriminate; reflexivity.
+    + intros _. split; reflexivity.
+Qed.
+
+(* ------------------------------------------------------------------------------------------ *)
+(* C20_pause                                                                                   *)
+(* ------------------------------------------------------------------------------------------ *)
+(* client actions that set the _unpaused flag: unpause(), and the set() inside start() and stop() *)
+Definition sets_unp (it : titem) : bool :=
+  match it with TC _ AUnpauseSet | TC _ AStartSet | TC _ AStopSetUnp => true | _ => false end.
+Definition no_unp_set (l : list titem) : Prop := forallb (fun it => negb (sets_unp it)) l = true.
+
+(* cycles the runner can still begin while _unpaused stays clear *)
+Definition budget (s : state) : nat :=
+  match s_rpc s with PTestFinal | PTestStop | PBeforeExec => 1 | _ => 0 end.
+
+Lemma count_ract_app : forall p a b, count_ract p (a ++ b) = (count_ract p a + count_ract p b)%nat.
+Proof. intros. unfold count_ract. rewrite ractions_app, filter_app, app_length. reflexivity. Qed.
+
+Lemma no_unp_set_app : forall a b, no_unp_set (a ++ b) <-> no_unp_set a /\ no_unp_set b.
+Proof. intros. unfold no_unp_set. rewrite forallb_app. apply andb_true_iff. Qed.
+
+Lemma pause_runner : forall cf s s' a, step_runner cf s = Some (s', a) -> s_unp s = false ->
+  s_unp s' = false /\ (count_ract is_before_exec [TR a] + budget s' <= budget s)%nat.
+Proof.
+  intros cf s s' a H U. unfold budget, count_ract.
+  runner_cases H; rewrite ?Epc; cbn; unfold after_step; cbn;
+    try match goal with |- context [if cf_all ?c then _ else _] => destruct (cf_all c); cbn end;
+    try congruence; split; try assumption; try lia.
+Qed.
+
+Lemma pause_client : forall cf c s s' l, step_client cf c s = Some (s', l) -> s_unp s = false ->
+  no_unp_set l -> s_unp s' = false /\ (count_ract is_before_exec l + budget s' <= budget s)%nat.
+Proof.
+  intros cf c s s' l H U N. unfold budget, count_ract, no_unp_set in *.
+  client_cases H; cbn in N; try discriminate; cbn; split; try assumption; try reflexivity; try lia.
+Qed.
+
+Lemma pause_step : forall cf s t s' l, step cf s t = (s', l) -> s_unp s = false -> no_unp_set l ->
+  s_unp s' = false /\ (count_ract is_before_exec l + budget s' <= budget s)%nat.
+Proof.
+  intros cf s t s' l H U N.
+  destruct (step_elim _ _ _ _ _ H) as [(-> & -> & Hsk) | [(s1 & a & -> & Hr & [(-> & -> & Hnw) | (Hc & Ha & -> & ->)]) | [-> Hc]]].
+  - split; [exact U|]. cbn. lia.
+  - eapply pause_runner; eauto.
+  - destruct (pause_runner _ _ _ _ Hr U) as [U1 C1]. split; [exact U1|].
+    unfold budget, ret in *; cbn in *. exact C1.
+  - eapply pause_client; eauto.
+Qed.
+
+Lemma pause_run : forall cf sched s s' l, s_unp s = false -> run_from cf s sched = (s', l) ->
+  no_unp_set l -> (count_ract is_before_exec l + budget s' <= budget s)%nat.
+Proof.
+  induction sched as [|t sched IH]; intros s s' l U H N; cbn [run_from] in H.
+  - inv H. cbn. lia.
+  - destruct (step cf s t) as [s1 l1] eqn:Es. destruct (run_from cf s1 sched) as [s2 l2] eqn:Er. inv H.
+    apply no_unp_set_app in N. destruct N as [N1 N2].
+    destruct (pause_step _ _ _ _ _ Es U N1) as [U1 C1].
+    pose proof (IH _ _ _ U1 Er N2) as C2. rewrite count_ract_app. lia.
+Qed.
+
+Lemma step_nonempty : forall cf s t s' l, step cf s t = (s', l) -> l <> [].
+Proof.
+  intros cf s t s' l H.
+  destruct (step_elim _ _ _ _ _ H) as [(-> & -> & Hsk) | [(s1 & a & -> & Hr & [(-> & -> & Hnw) | (Hc & Ha & -> & ->)]) | [-> Hc]]];
+    try discriminate.
+  client_cases Hc; discriminate.
+Qed.
+
+Lemma step_last_pause : forall cf s t s' l d, step cf s t = (s', l) ->
+  last l d = TRet O CPause OK -> s_unp s' = false.
+Proof.
+  intros cf s t s' l d H L.
+  destruct (step_elim _ _ _ _ _ H) as [(-> & -> & Hsk) | [(s1 & a & -> & Hr & [(-> & -> & Hnw) | (Hc & Ha & -> & ->)]) | [-> Hc]]];
+    cbn in L; try discriminate.
+  client_cases Hc; cbn in L; try discriminate. reflexivity.
+Qed.
+
+Lemma last_app_nonempty : forall (A : Type) (a b : list A) d, b <> [] -> last (a ++ b) d = last b d.
+Proof.
+  intros A a b d Hb. induction a as [|x a IH]; [reflexivity|].
+  cbn [app]. destruct (a ++ b) eqn:E.
+  - destruct a; [cbn in E; contradiction|discriminate].
+  - rewrite <- IH. reflexivity.
+Qed.
+
+(* the last item of a run's trace was emitted by its last step *)
+Lemma run_from_last : forall cf sched s s' l x,
+  run_from cf s sched = (s', l ++ [x]) ->
+  exists sched0 t s0 l0 l1, sched = sched0 ++ [t] /\ run_from cf s sched0 = (s0, l0) /\
+    step cf s0 t = (s', l1) /\ l ++ [x] = l0 ++ l1 /\ last l1 x = x.
+Proof.
+  intros cf sched. induction sched as [|t sched0 _] using rev_ind; intros s s' l x H.
+  - cbn in H. inv H. destruct l; discriminate.
+  - rewrite run_from_app in H. destruct (run_from cf s sched0) as [s0 l0] eqn:E0.
+    cbn [run_from] in H. destruct (step cf s0 t) as [s1 l1] eqn:Es. inv H. rewrite app_nil_r in H2.
+    pose proof (step_nonempty _ _ _ _ _ Es) as Hn.
+    exists sched0, t, s0, l0, l1. split; [reflexivity|]. split; [exact E0|]. split; [exact Es|].
+    split; [rewrite ?app_nil_r; first [reflexivity | symmetry; exact H2]|].
+    rewrite <- (last_app_nonempty _ l0 l1 x Hn). rewrite H2. apply last_last.
+Qed.
+
+(* C20_pause: take any point of any run at which pause() has just returned; however the schedule goes on,
+   as long as no unpause() / stop() / start() sets the flag again, the runner begins at most ONE more
+   cycle (before_execute) -- the one that was already under way or already released. *)
+Theorem C20_pause : forall cf sched1 s1 tr0 sched2 s2 mid,
+  run_schedule cf sched1 = (s1, tr0 ++ [TRet O CPause OK]) ->
+  run_from cf s1 sched2 = (s2, mid) ->
+  no_unp_set mid ->
+  (count_ract is_before_exec mid <= 1)%nat.
+Proof.
+  intros cf sched1 s1 tr0 sched2 s2 mid H1 H2 N.
+  destruct (run_from_last _ _ _ _ _ _ H1) as (sched0 & t & s0 & l0 & l1 & _ & _ & Hs & _ & L).
+  pose proof (step_last_pause _ _ _ _ _ _ Hs L) as U.
+  pose proof (pause_run _ _ _ _ _ U H2 N) as C.
+  assert (budget s1 <= 1)%nat by (unfold budget; destruct (s_rpc s1); lia). lia.
+Qed.
+
+(* ------------------------------------------------------------------------------------------ *)
+(* the _stop flag is never cleared                                                             *)
+(* ------------------------------------------------------------------------------------------ *)
+Lemma stop_mono_runner : forall cf s s' a, step_runner cf s = Some (s', a) -> s_stop s = true -> s_stop s' = true.
+Proof.
+  intros cf s s' a H U. runner_cases H; cbn; unfold after_step; cbn; auto.
+Qed.
+
+Lemma stop_mono_client : forall cf c s s' l, step_client cf c s = Some (s', l) -> s_stop s = true -> s_stop s' = true.
+Proof.
+  intros cf c s s' l H U. client_cases H; cbn; unfold do_unp_set; cbn;
+    try match goal with |- context [match s_rpc ?x with _ => _ end] => destruct (s_rpc x) end; cbn; auto.
+Qed.
+
+Lemma stop_mono_step : forall cf s t s' l, step cf s t = (s', l) -> s_stop s = true -> s_stop s' = true.
+Proof.
+  intros cf s t s' l H U.
+  destruct (step_elim _ _ _ _ _ H) as [(-> & -> & Hsk) | [(s1 & a & -> & Hr & [(-> & -> & Hnw) | (Hc & Ha & -> & ->)]) | [-> Hc]]].
+  - exact U.
+  - eapply stop_mono_runner; eauto.
+  - cbn. eapply stop_mono_runner; eauto.
+  - eapply stop_mono_client; eauto.
+Qed.
+
+Lemma stop_mono_run : forall cf sched s s' l, run_from cf s sched = (s', l) -> s_stop s = true -> s_stop s' = true.
+Proof.
+  induction sched as [|t sched IH]; intros s s' l H U; cbn [run_from] in H.
+  - inv H. exact U.
+  - destruct (step cf s t) as [s1 l1] eqn:Es. destruct (run_from cf s1 sched) as [s2 l2] eqn:Er. inv H.
+    eapply IH; [exact Er|]. eapply stop_mono_step; eauto.
+Qed.
+
+Lemma base_run : forall cf sched s s' l, run_from cf s sched = (s', l) -> base_inv s -> base_inv s'.
+Proof.
+  induction sched as [|t sched IH]; intros s s' l H U; cbn [run_from] in H.
+  - inv H. exact U.
+  - destruct (step cf s t) as [s1 l1] eqn:Es. destruct (run_from cf s1 sched) as [s2 l2] eqn:Er. inv H.
+    eapply IH; [exact Er|]. eapply base_step; eauto.
+Qed.
+
+Lemma base_reach : forall cf sched s tr, run_schedule cf sched = (s, tr) -> base_inv s.
+Proof. intros cf sched s tr H. eapply base_run; [exact H|apply base_init]. Qed.
+
+(* ------------------------------------------------------------------------------------------ *)
+(* C20_final                                                                                   *)
+(* ------------------------------------------------------------------------------------------ *)
+(* the exit path of _run: after the loop, _stop.set(), after_run, end of thread *)
+Definition exit_step_spec (s s' : state) (l : list titem) : Prop :=
+  match s_rpc s with
+  | PStopSet => (ractions l = [] /\ s_rpc s' = PStopSet) \/
+                (ractions l = [AStopSet] /\ s_rpc s' = PAfterRun /\ s_stop s' = true)
+  | PAfterRun => s_stop s = true ->
+                (ractions l = [] /\ s_rpc s' = PAfterRun /\ s_stop s' = true) \/
+                (ractions l = [AAfterRun] /\ s_rpc s' = PDone /\ s_stop s' = true)
+  | PDone => s_stop s = true -> ractions l = [] /\ s_rpc s' = PDone /\ s_stop s' = true
+  | _ => True
+  end.
+
+Lemma client_keeps_rpc : forall cf c s s' l, step_client cf c s = Some (s', l) -> base_inv s ->
+  s_rpc s <> PWaiting -> s_rpc s <> PNotStarted -> s_rpc s' = s_rpc s.
+Proof.
+  intros cf c s s' l H [[B1 B1'] _] N1 N2.
+  destruct (client_effect_step _ _ _ _ _ H) as (_ & _ & _ & _ & _ & [(E1 & _) | [(E0 & _) | (E0 & _)]]).
+  - exact E1.
+  - contradiction.
+  - apply B1 in E0. contradiction.
+Qed.
+
+Lemma exit_step : forall cf s t s' l, base_inv s -> step cf s t = (s', l) -> exit_step_spec s s' l.
+Proof.
+  intros cf s t s' l B H. unfold exit_step_spec.
+  destruct (step_elim _ _ _ _ _ H) as [(-> & -> & Hsk) | [(s1 & a & -> & Hr & [(-> & -> & Hnw) | (Hc & Ha & -> & ->)]) | [-> Hc]]].
+  - destruct (s_rpc s); auto.
+  - runner_cases Hr; cbn; auto.
+  - runner_cases Hr; cbn; auto.
+  - pose proof (client_no_ract _ _ _ _ _ Hc) as Hl.
+    destruct (s_rpc s) eqn:Epc; auto.
+    + left. split; [exact Hl|]. rewrite <- Epc. eapply client_keeps_rpc; eauto; rewrite Epc; discriminate.
+    + intros U. left. split; [exact Hl|]. split; [|eapply stop_mono_client; eauto].
+      rewrite <- Epc. eapply client_keeps_rpc; eauto; rewrite Epc; discriminate.
+    + intros U. split; [exact Hl|]. split; [|eapply stop_mono_client; eauto].
+      rewrite <- Epc. eapply client_keeps_rpc; eauto; rewrite Epc; discriminate.
+Qed.
+
+Lemma exit_run_done : forall cf sched s s' l, base_inv s -> run_from cf s sched = (s', l) ->
+  s_rpc s = PDone -> s_stop s = true -> ractions l = [] /\ s_rpc s' = PDone /\ s_stop s' = true.
+Proof.
+  induction sched as [|t sched IH]; intros s s' l B H P U; cbn [run_from] in H.
+  - inv H. auto.
+  - destruct (step cf s t) as [s1 l1] eqn:Es. destruct (run_from cf s1 sched) as [s2 l2] eqn:Er. inv H.
+    pose proof (exit_step _ _ _ _ _ B Es) as X. unfold exit_step_spec in X. rewrite P in X.
+    destruct (X U) as (X1 & X2 & X3).
+    destruct (IH _ _ _ (base_step _ _ _ _ _ Es B) Er X2 X3) as (Y1 & Y2 & Y3).
+    rewrite ractions_app, X1, Y1. auto.
+Qed.
+
+Lemma exit_run_afterrun : forall cf sched s s' l, base_inv s -> run_from cf s sched = (s', l) ->
+  s_rpc s = PAfterRun -> s_stop s = true ->
+  (ractions l = [] \/ ractions l = [AAfterRun]) /\ s_stop s' = true.
+Proof.
+  induction sched as [|t sched IH]; intros s s' l B H P U; cbn [run_from] in H.
+  - inv H. auto.
+  - destruct (step cf s t) as [s1 l1] eqn:Es. destruct (run_from cf s1 sched) as [s2 l2] eqn:Er. inv H.
+    pose proof (exit_step _ _ _ _ _ B Es) as X. unfold exit_step_spec in X. rewrite P in X.
+    pose proof (base_step _ _ _ _ _ Es B) as B1. rewrite ractions_app.
+    destruct (X U) as [(X1 & X2 & X3) | (X1 & X2 & X3)].
+    + destruct (IH _ _ _ B1 Er X2 X3) as (Y1 & Y2). rewrite X1. auto.
+    + destruct (exit_run_done _ _ _ _ _ B1 Er X2 X3) as (Y1 & Y2 & Y3). rewrite X1, Y1. auto.
+Qed.
+
+Lemma exit_run_stopset : forall cf sched s s' l, base_inv s -> run_from cf s sched = (s', l) ->
+  s_rpc s = PStopSet ->
+  (ractions l = [] \/ ractions l = [AStopSet] \/ ractions l = [AStopSet; AAfterRun]) /\
+  (ractions l <> [] -> s_stop s' = true).
+Proof.
+  induction sched as [|t sched IH]; intros s s' l B H P; cbn [run_from] in H.
+  - inv H. split; [auto|]. intros X; contradiction.
+  - destruct (step cf s t) as [s1 l1] eqn:Es. destruct (run_from cf s1 sched) as [s2 l2] eqn:Er. inv H.
+    pose proof (exit_step _ _ _ _ _ B Es) as X. unfold exit_step_spec in X. rewrite P in X.
+    pose proof (base_step _ _ _ _ _ Es B) as B1. rewrite ractions_app.
+    destruct X as [(X1 & X2) | (X1 & X2 & X3)].
+    + destruct (IH _ _ _ B1 Er X2) as (Y1 & Y2). rewrite X1. auto.
+    + destruct (exit_run_afterrun _ _ _ _ _ B1 Er X2 X3) as ([Y1|Y1] & Y2); rewrite X1, Y1; cbn; auto.
+Qed.
+
+Lemma step_last_testfinal : forall cf s t s' l d, step cf s t = (s', l) ->
+  last l d = TR (ATestFinal true) -> s_rpc s' = PStopSet /\ s_fin s = true.
+Proof.
+  intros cf s t s' l d H L.
+  destruct (step_elim _ _ _ _ _ H) as [(-> & -> & Hsk) | [(s1 & a & -> & Hr & [(-> & -> & Hnw) | (Hc & Ha & -> & ->)]) | [-> Hc]]];
+    cbn in L; try discriminate.
+  - inv L. runner_cases Hr. cbn. auto.
+  - client_cases Hc; cbn in L; discriminate.
+Qed.
+
+(* C20_final: take any point of any run at which the loop condition has just been evaluated with
+   interpreter.final true.  However the schedule goes on, the only further actions of the runner thread
+   are _stop.set() and after_run (in this order): no further cycle, the loop is left, _stop is set. *)
+Theorem C20_final : forall cf sched1 s1 tr0 sched2 s2 l,
+  run_schedule cf sched1 = (s1, tr0 ++ [TR (ATestFinal true)]) ->
+  run_from cf s1 sched2 = (s2, l) ->
+  (ractions l = [] \/ ractions l = [AStopSet] \/ ractions l = [AStopSet; AAfterRun]) /\
+  (ractions l <> [] -> s_stop s2 = true).
+Proof.
+  intros cf sched1 s1 tr0 sched2 s2 l H1 H2.
+  destruct (run_from_last _ _ _ _ _ _ H1) as (sched0 & t & s0 & l0 & l1 & _ & _ & Hs & _ & L).
+  destruct (step_last_testfinal _ _ _ _ _ _ Hs L) as [P _].
+  eapply exit_run_stopset; eauto. eapply base_reach; eauto.
+Qed.
+
+(* what `interpreter.final` means in terms of the executed macro steps *)
+Definition makes_final (cf : config) (m : mstep) : bool :=
+  match m with
+  | MInit => match cf_chart cf with ChInitFinal => true | _ => false end
+  | MEv e _ => becomes_final cf e
+  end.
+Definition final_of (cf : config) (ms : list mstep) : bool := existsb (makes_final cf) ms.
+
+Definition fin_inv (cf : config) (s : state) (tr : list titem) : Prop :=
+  (s_init s = false -> executed tr = []) /\ s_fin s = final_of cf (executed tr) /\
+  (s_rpc s = PExPop -> s_init s = true).
+
+Lemma fin_runner : forall cf s s' a tr,
+  step_runner cf s = Some (s', a) -> fin_inv cf s tr -> fin_inv cf s' (tr ++ [TR a]).
+Proof.
+  intros cf s s' a tr H (F1 & F2 & F3). unfold fin_inv, final_of in *. rewrite executed_app.
+  runner_cases H; cbn; unfold after_step; cbn; rewrite ?app_nil_r;
+    try match goal with |- context [if cf_all ?c then _ else _] => destruct (cf_all c); cbn end;
+    try (split; [assumption | split; [congruence | discriminate]]).
+  all: try (apply negb_true_iff in Eb; rewrite (F1 Eb); cbn; split; [discriminate|split; [|discriminate]];
+            destruct (cf_chart cf); reflexivity).
+  all: try (apply negb_false_iff in Eb; split; [assumption|split; [assumption|intros _; exact Eb]]).
+  all: (split; [intros X; rewrite (F3 eq_refl) in X; discriminate|]);
+       (split; [|discriminate]); rewrite existsb_app; cbn; rewrite F2, orb_false_r; reflexivity.
+Qed.
+
+Lemma fin_silent : forall cf s tr l, ractions l = [] -> fin_inv cf s tr -> fin_inv cf s (tr ++ l).
+Proof.
+  intros cf s tr l Hl F. unfold fin_inv in *. rewrite executed_app, (ractions_nil_executed _ Hl), app_nil_r. exact F.
+Qed.
+
+Lemma fin_client : forall cf c s s' l tr,
+  step_client cf c s = Some (s', l) -> fin_inv cf s tr -> fin_inv cf s' (tr ++ l).
+Proof.
+  intros cf c s s' l tr H (F1 & F2 & F3).
+  pose proof (client_no_ract _ _ _ _ _ H) as Hl.
+  destruct (client_effect_step _ _ _ _ _ H) as (_ & _ & Ei & Ef & _ & D).
+  unfold fin_inv. rewrite executed_app, (ractions_nil_executed _ Hl), app_nil_r, Ei, Ef.
+  split; [assumption|split; [assumption|]].
+  destruct D as [(E1 & _) | [(E0 & E1 & _) | (E0 & E1 & _)]]; rewrite E1; try discriminate. exact F3.
+Qed.
+
+Lemma fin_step : forall cf s tr t s' l, fin_inv cf s tr -> step cf s t = (s', l) -> fin_inv cf s' (tr ++ l).
+Proof.
+  intros cf s tr t s' l R H.
+  destruct (step_elim _ _ _ _ _ H) as [(-> & -> & Hsk) | [(s1 & a & -> & Hr & [(-> & -> & Hnw) | (Hc & Ha & -> & ->)]) | [-> Hc]]].
+  - apply fin_silent; [reflexivity|exact R].
+  - eapply fin_runner; eauto.
+  - change [TR a; TRet 0 CStop OK] with ([TR a] ++ [TRet 0 CStop OK]). rewrite app_assoc.
+    apply (fin_silent cf (ret 0 CStop OK s1)); [reflexivity|].
+    pose proof (fin_runner _ _ _ _ _ Hr R) as X. exact X.
+  - eapply fin_client; eauto.
+Qed.
+
+(* interpreter.final, as read by the runner, is true exactly when one of the executed macro steps made
+   the statechart final (initialisation into a top-level final state, or 'fin' consumed) *)
+Theorem C20_final_meaning : forall cf sched s tr,
+  run_schedule cf sched = (s, tr) -> s_fin s = final_of cf (executed tr).
+Proof.
+  intros cf sched s tr H.
+  assert (R : fin_inv cf s tr).
+  { eapply (run_schedule_inv cf (fin_inv cf)); [apply fin_step| |exact H].
+    split; [reflexivity|split; [reflexivity|discriminate]]. }
+  apply R.
+Qed.
+
+Theorem C20_final_test : forall cf sched s tr0 b,
+  run_schedule cf sched = (s, tr0 ++ [TR (ATestFinal b)]) -> b = final_of cf (executed tr0).
+Proof.
+  intros cf sched s tr0 b H.
+  destruct (run_from_last _ _ _ _ _ _ H) as (sched0 & t & s0 & l0 & l1 & _ & H0 & Hs & E & L).
+  pose proof (C20_final_meaning cf sched0 s0 l0 H0) as M.
+  destruct (step_elim _ _ _ _ _ Hs) as [(-> & -> & Hsk) | [(s1 & a & -> & Hr & [(-> & -> & Hnw) | (Hc & Ha & -> & ->)]) | [-> Hc]]];
+    cbn in L; try discriminate.
+  - inv L. apply app_inj_tail in E. destruct E as [-> _].
+    runner_cases Hr; rewrite <- M; congruence.
+  - client_cases Hc; cbn in L; discriminate.
+Qed.
+
+(* ------------------------------------------------------------------------------------------ *)
+(* C20_stop: bounded termination of the runner thread once _stop is set                        *)
+(* ------------------------------------------------------------------------------------------ *)
+Definition is_queue (op : call) : bool := match op with CQueue _ => true | _ => false end.
+Definition count_queue (l : list call) : nat := length (filter is_queue l).
+
+(* insertions into the queue the client script can still perform *)
+Definition pend_ins (cf : config) (s : state) : nat :=
+  match s_script s with
+  | [] => 0
+  | op :: rest =>
+      (match op, s_cpc s with
+       | CQueue _, CQ1 _ _ => if cf_atomic cf then 0 else 1
+       | CQueue _, _ => 1
+       | _, _ => 0
+       end + count_queue rest)%nat
+  end.
+
+(* with execute_all the inner loop of execute() runs once per consumable event: potential *)
+Definition phi (cf : config) (s : state) : nat :=
+  if cf_all cf then (length (s_queue s) + 2 * pend_ins cf s + (if s_init s then 0 else 1))%nat else 0%nat.
+
+Definition pop_bump (cf : config) (s : state) : nat :=
+  if cf_all cf then match due_head s with None => 3 | Some _ => 0 end else 0%nat.
+
+(* upper bound on the number of actions the runner thread can still perform once _stop is set *)
+Definition mu (cf : config) (s : state) : nat :=
+  match s_rpc s with
+  | PDone => 0 | PAfterRun => 1 | PStopSet => 2 | PTestStop => 3 | PTestFinal => 4 | PWaiting => 4
+  | PWait => 5 | PAfterExec => 6 | PBeforeRun => 7 | PNotStarted => 7
+  | PExPop => 3 * phi cf s + 7 + pop_bump cf s
+  | PExPeek => 3 * phi cf s + 8
+  | PExTime => 3 * phi cf s + 9
+  | PBeforeExec => 3 * phi cf s + 10
+  end%nat.
+
+Lemma due_head_some_queue : forall s e, due_head s = Some e -> exists k rest, s_queue s = (k, e) :: rest.
+Proof.
+  intros s e H. unfold due_head in H. destruct (s_queue s) as [|[k e0] rest]; [discriminate|].
+  destruct (Z.leb k (s_itime s)); [|discriminate]. inv H. eauto.
+Qed.
+
+Lemma mu_runner : forall cf s s' a, step_runner cf s = Some (s', a) -> s_stop s = true ->
+  (S (mu cf s') <= mu cf s)%nat.
+Proof.
+  intros cf s s' a H U. unfold mu.
+  runner_cases H; rewrite ?Epc; cbn [s_rpc set_rpc set_steps set_itime set_init set_fin set_pend set_queue
+                                      set_stop set_alive after_step];
+    try congruence; try lia.
+  all: unfold phi, pop_bump, pend_ins, due_head in *;
+       cbn [s_rpc s_queue s_init s_script s_cpc s_itime set_rpc set_steps set_itime set_init set_fin set_pend
+            set_queue set_stop set_alive after_step] in *.
+  all: destruct (cf_all cf) eqn:Eall; cbn; try lia.
+  all: try (apply negb_true_iff in Eb; rewrite Eb; lia).
+  all: try (destruct (s_queue s) as [|[k0 e1] q]; [discriminate|]; cbn in *;
+            destruct (Z.leb k0 (s_itime s)); try discriminate; cbn; lia).
+  all: try (destruct (s_queue s) as [|[k0 e1] q]; cbn in *; [lia|]; destruct (Z.leb k0 (s_itime s)); try discriminate; lia).
+Qed.
+
+Lemma insert_at_length : forall (A : Type) i (x : A) l, length (insert_at i x l) = S (length l).
+Proof.
+  intros A i x l. unfold insert_at. rewrite app_length. cbn [length].
+  rewrite <- (firstn_skipn i l) at 3. rewrite app_length. lia.
+Qed.
+
+Lemma pend_ins_C0 : forall cf s, s_cpc s = C0 -> pend_ins cf s = count_queue (s_script s).
+Proof.
+  intros cf s H. unfold pend_ins, count_queue. rewrite H.
+  destruct (s_script s) as [|op rest]; [reflexivity|]. destruct op; reflexivity.
+Qed.
+
+Lemma head_count : forall rest,
+  match rest with
+  | [] => 0%nat
+  | op :: r => (match op with CQueue _ => 1 | _ => 0 end + count_queue r)%nat
+  end = count_queue rest.
+Proof. intros [|o r]; [reflexivity|]. destruct o; reflexivity. Qed.
+
+(* effect of a client step on the queue and on the number of insertions still to come *)
+Lemma client_queue_effect : forall cf c s s' l, step_client cf c s = Some (s', l) ->
+  s_itime s' = s_itime s /\ s_init s' = s_init s /\
+  ((s_queue s' = s_queue s /\ pend_ins cf s' = pend_ins cf s) \/
+   (length (s_queue s') = S (length (s_queue s)) /\ S (pend_ins cf s') = pend_ins cf s)).
+Proof.
+  intros cf c s s' l H.
+  client_cases H; cbn -[insert_at bisect_right]; unfold do_unp_set;
+    try match goal with |- context [match s_rpc ?x with _ => _ end] => destruct (s_rpc x) end;
+    cbn -[insert_at bisect_right];
+    (split; [reflexivity|]); (split; [reflexivity|]).
+  all: unfold pend_ins, ret; cbn -[insert_at bisect_right]; rewrite ?Escr, ?Ecpc; cbn -[insert_at bisect_right];
+       rewrite ?insert_at_length, ?head_count, ?Eb.
+  all: first [ left; split; reflexivity | right; split; reflexivity ].
+Qed.
+
+Lemma mu_client : forall cf c s s' l, step_client cf c s = Some (s', l) -> base_inv s ->
+  (mu cf s' <= mu cf s)%nat.
+Proof.
+  intros cf c s s' l H [[B1 _] _].
+  destruct (client_queue_effect _ _ _ _ _ H) as (Et & Ei & Q).
+  destruct (client_effect_step _ _ _ _ _ H) as (_ & _ & _ & _ & _ & [(E1 & _) | [(E0 & E1 & _) | (E0 & E1 & _)]]).
+  - unfold mu. rewrite E1. unfold phi, pop_bump, due_head. rewrite Et, Ei.
+    destruct Q as [[Q1 Q2] | [Q1 Q2]].
+    + rewrite Q1, Q2. lia.
+    + rewrite Q1, <- Q2. destruct (cf_all cf); [|destruct (s_rpc s); lia].
+      destruct (s_rpc s); try lia.
+      destruct (s_queue s') as [|[k' e'] q']; destruct (s_queue s) as [|[k e] q];
+        try destruct (Z.leb k' (s_itime s)); try destruct (Z.leb k (s_itime s)); cbn [length] in *; lia.
+  - unfold mu. rewrite E1, E0. lia.
+  - unfold mu. rewrite E1, (B1 E0). lia.
+Qed.
+
+Lemma mu_step : forall cf s t s' l, step cf s t = (s', l) -> base_inv s -> s_stop s = true ->
+  (length (ractions l) + mu cf s' <= mu cf s)%nat.
+Proof.
+  intros cf s t s' l H B U.
+  destruct (step_elim _ _ _ _ _ H) as [(-> & -> & Hsk) | [(s1 & a & -> & Hr & [(-> & -> & Hnw) | (Hc & Ha & -> & ->)]) | [-> Hc]]].
+  - cbn. lia.
+  - pose proof (mu_runner _ _ _ _ Hr U). cbn. lia.
+  - pose proof (mu_runner _ _ _ _ Hr U) as M. cbn [ractions length].
+    assert (E : mu cf (ret 0 CStop OK s1) = mu cf s1).
+    { pose proof (base_runner _ _ _ _ Hr B) as [_ B2]. rewrite Ha in B2.
+      unfold mu, ret; cbn. destruct (s_rpc s1); try discriminate; reflexivity. }
+    rewrite E. lia.
+  - rewrite (client_no_ract _ _ _ _ _ Hc). pose proof (mu_client _ _ _ _ _ Hc B). cbn. lia.
+Qed.
+
+(* C20_stop (bound): from any state in which _stop is set, under EVERY continuation of the schedule, the
+   runner thread performs at most mu actions of its own (execute_once = 3 atomic actions); mu <= 10 without
+   execute_all, and <= 10 + 3 * (events in the queue + 2 * insertions the script can still make + 1) with it. *)
+Theorem C20_stop_bound : forall cf sched s s' l,
+  base_inv s -> s_stop s = true -> run_from cf s sched = (s', l) ->
+  (length (ractions l) + mu cf s' <= mu cf s)%nat.
+Proof.
+  intros cf sched. induction sched as [|t sched IH]; intros s s' l B U H; cbn [run_from] in H.
+  - inv H. cbn. lia.
+  - destruct (step cf s t) as [s1 l1] eqn:Es. destruct (run_from cf s1 sched) as [s2 l2] eqn:Er. inv H.
+    pose proof (mu_step _ _ _ _ _ Es B U) as M1.
+    pose proof (IH _ _ _ (base_step _ _ _ _ _ Es B) (stop_mono_step _ _ _ _ _ Es U) Er) as M2.
+    rewrite ractions_app, app_length. lia.
+Qed.
+
+Lemma mu_le : forall cf s, (mu cf s <= 10 + 3 * phi cf s + 3)%nat.
+Proof.
+  intros cf s. unfold mu, pop_bump. destruct (s_rpc s); try lia.
+  destruct (cf_all cf); [destruct (due_head s)|]; lia.
+Qed.
+
+Lemma mu_le_noall : forall cf s, cf_all cf = false -> (mu cf s <= 10)%nat.
+Proof.
+  intros cf s H. unfold mu, pop_bump, phi. rewrite H. destruct (s_rpc s); lia.
+Qed.
+
+(* ------------------------------------------------------------------------------------------ *)
+(* C20_stop: the client inside stop(); nothing after stop() returned; stop() returns            *)
+(* ------------------------------------------------------------------------------------------ *)
+Definition in_stop (p : cpc) : bool := match p with CStop1 | CStop2 | CStop3 | CJoining => true | _ => false end.
+Definition in_stop2 (p : cpc) : bool := match p with CStop2 | CStop3 | CJoining => true | _ => false end.
+Definition in_start (p : cpc) : bool := match p with CStart1 | CStart2 | CStart3 => true | _ => false end.
+
+Definition stop_inv (s : state) : Prop :=
+  (in_stop (s_cpc s) = true -> s_stop s = true) /\
+  (in_stop2 (s_cpc s) = true -> s_unp s = true /\ s_rpc s <> PWaiting) /\
+  (s_cpc s = CJoining -> s_alive s = true) /\
+  (s_rpc s = PNotStarted -> s_stop s = true -> in_start (s_cpc s) = false).
+
+Lemma stop_inv_runner : forall cf s s' a, step_runner cf s = Some (s', a) -> stop_inv s ->
+  (s_cpc s' = CJoining -> s_alive s' = true) -> stop_inv s'.
+Proof.
+  intros cf s s' a H (S1 & S2 & S3 & S4) Hnw. unfold stop_inv.
+  split; [|split; [|split; [exact Hnw|]]].
+  - intros X. eapply stop_mono_runner; [exact H|]. apply S1.
+    runner_cases H; cbn in X; unfold after_step in X; cbn in X; exact X.
+  - intros X. assert (X0 : in_stop2 (s_cpc s) = true)
+      by (runner_cases H; cbn in X; unfold after_step in X; cbn in X; exact X).
+    destruct (S2 X0) as [U N].
+    runner_cases H; cbn; unfold after_step; cbn;
+      try match goal with |- context [if cf_all ?c then _ else _] => destruct (cf_all c); cbn end;
+      try congruence; split; try assumption; discriminate.
+  - runner_cases H; cbn; unfold after_step; cbn;
+      try match goal with |- context [if cf_all ?c then _ else _] => destruct (cf_all c); cbn end;
+      discriminate.
+Qed.
+
+Lemma stop_inv_client : forall cf c s s' l, step_client cf c s = Some (s', l) -> stop_inv s -> stop_inv s'.
+Proof.
+  intros cf c s s' l H (S1 & S2 & S3 & S4). unfold stop_inv.
+  client_cases H; rewrite ?Ecpc in *; cbn in *; unfold do_unp_set; cbn;
+    try match goal with |- context [match s_rpc ?x with _ => _ end] => destruct (s_rpc x) eqn:Epc end; cbn;
+    repeat split; intros; try discriminate; try congruence; auto;
+    try (apply S2; reflexivity); try (apply S4; assumption).
+Qed.
+
+Lemma stop_inv_step : forall cf s t s' l, step cf s t = (s', l) -> stop_inv s -> stop_inv s'.
+Proof.
+  intros cf s t s' l H S.
+  destruct (step_elim _ _ _ _ _ H) as [(-> & -> & Hsk) | [(s1 & a & -> & Hr & [(-> & -> & Hnw) | (Hc & Ha & -> & ->)]) | [-> Hc]]].
+  - exact S.
+  - eapply stop_inv_runner; eauto.
+  - (* the joining client is released: it is back at C0 *)
+    destruct S as (S1 & S2 & S3 & S4). unfold stop_inv, ret; cbn.
+    repeat split; intros; try discriminate; try reflexivity.
+  - eapply stop_inv_client; eauto.
+Qed.
+
+Lemma stop_inv_init : forall cf, stop_inv (init_state cf).
+Proof. intros cf. unfold stop_inv; cbn. repeat split; intros; discriminate. Qed.
+
+Lemma stop_inv_run : forall cf sched s s' l, run_from cf s sched = (s', l) -> stop_inv s -> stop_inv s'.
+Proof.
+  induction sched as [|t sched IH]; intros s s' l H U; cbn [run_from] in H.
+  - inv H. exact U.
+  - destruct (step cf s t) as [s1 l1] eqn:Es. destruct (run_from cf s1 sched) as [s2 l2] eqn:Er. inv H.
+    eapply IH; [exact Er|]. eapply stop_inv_step; eauto.
+Qed.
+
+(* after stop() has returned: _stop is set and the runner thread is not running (ended or never started);
+   this state is stable and no runner action is possible in it *)
+Definition stopped (s : state) : Prop :=
+  base_inv s /\ stop_inv s /\ s_stop s = true /\ rpc_dead (s_rpc s) = true.
+
+Lemma stopped_step : forall cf s t s' l, step cf s t = (s', l) -> stopped s -> stopped s' /\ ractions l = [].
+Proof.
+  intros cf s t s' l H (B & S & U & D).
+  destruct (step_elim _ _ _ _ _ H) as [(-> & -> & Hsk) | [(s1 & a & -> & Hr & _) | [-> Hc]]].
+  - split; [unfold stopped; auto|reflexivity].
+  - exfalso. unfold step_runner in Hr. destruct (s_rpc s); try discriminate.
+  - split; [|eapply client_no_ract; eauto].
+    split; [eapply base_client; eauto|]. split; [eapply stop_inv_client; eauto|].
+    split; [eapply stop_mono_client; eauto|].
+    destruct (client_effect_step _ _ _ _ _ Hc) as (_ & _ & _ & _ & _ & [(E1 & _) | [(E0 & E1 & _) | (E0 & E1 & _ & _ & E4)]]).
+    + rewrite E1. exact D.
+    + rewrite E0 in D. discriminate.
+    + exfalso. destruct B as [[B1 _] _]. destruct S as (_ & _ & _ & S4).
+      pose proof (S4 (B1 E0) U) as X. rewrite E4 in X. discriminate.
+Qed.
+
+Lemma stopped_run : forall cf sched s s' l, run_from cf s sched = (s', l) -> stopped s -> ractions l = [].
+Proof.
+  induction sched as [|t sched IH]; intros s s' l H Q; cbn [run_from] in H.
+  - inv H. reflexivity.
+  - destruct (step cf s t) as [s1 l1] eqn:Es. destruct (run_from cf s1 sched) as [s2 l2] eqn:Er. inv H.
+    destruct (stopped_step _ _ _ _ _ Es Q) as [Q1 R1]. rewrite ractions_app, R1. cbn. eapply IH; eauto.
+Qed.
+
+Lemma step_last_stopret : forall cf s t s' l d, step cf s t = (s', l) -> base_inv s -> stop_inv s ->
+  last l d = TRet O CStop OK -> stopped s'.
+Proof.
+  intros cf s t s' l d H B S L.
+  pose proof (base_step _ _ _ _ _ H B) as B'. pose proof (stop_inv_step _ _ _ _ _ H S) as S'.
+  split; [exact B'|]. split; [exact S'|].
+  destruct (step_elim _ _ _ _ _ H) as [(-> & -> & Hsk) | [(s1 & a & -> & Hr & [(-> & -> & Hnw) | (Hc & Ha & -> & ->)]) | [-> Hc]]];
+    cbn in L; try discriminate.
+  - (* released from join by the end of the runner thread *)
+    pose proof (base_runner _ _ _ _ Hr B) as [_ B2]. rewrite Ha in B2.
+    assert (X : in_stop (s_cpc s) = true) by (runner_cases Hr; cbn in Hc; unfold after_step in Hc; cbn in Hc; rewrite Hc; reflexivity).
+    destruct S as (S1 & _). pose proof (stop_mono_runner _ _ _ _ Hr (S1 X)) as U.
+    cbn. split; [exact U|]. destruct (s_rpc s1); try discriminate; reflexivity.
+  - destruct S as (S1 & _). destruct B as [_ B2].
+    client_cases Hc; cbn in L; try discriminate; cbn; (split; [apply S1; reflexivity|]);
+      destruct (s_rpc s); try discriminate; reflexivity.
+Qed.
+
+(* C20_stop (nothing afterwards): take any point of any run at which stop() has just returned; however the
+   schedule goes on (whatever the client calls next, including start()), the runner thread never acts again. *)
+Theorem C20_stop_quiet : forall cf sched1 s1 tr0 sched2 s2 l,
+  run_schedule cf sched1 = (s1, tr0 ++ [TRet O CStop OK]) ->
+  run_from cf s1 sched2 = (s2, l) ->
+  ractions l = [] /\ s_alive s1 = false /\ s_stop s1 = true.
+Proof.
+  intros cf sched1 s1 tr0 sched2 s2 l H1 H2.
+  destruct (run_from_last _ _ _ _ _ _ H1) as (sched0 & t & s0 & l0 & l1 & _ & H0 & Hs & _ & L).
+  assert (Q : stopped s1).
+  { eapply step_last_stopret; eauto.
+    - eapply base_run; [exact H0|apply base_init].
+    - eapply stop_inv_run; [exact H0|apply stop_inv_init]. }
+  split; [eapply stopped_run; eauto|].
+  destruct Q as ([_ B2] & _ & U & D). rewrite B2, D. auto.
+Qed.
+
+(* the pop action always has a peeked event *)
+Definition pend_ok (s : state) : Prop := s_rpc s = PExPop -> s_pend s <> None.
+
+Lemma pend_ok_step : forall cf s t s' l, step cf s t = (s', l) -> pend_ok s -> pend_ok s'.
+Proof.
+  intros cf s t s' l H P. unfold pend_ok in *.
+  destruct (step_elim _ _ _ _ _ H) as [(-> & -> & Hsk) | [(s1 & a & -> & Hr & [(-> & -> & Hnw) | (Hc & Ha & -> & ->)]) | [-> Hc]]].
+  - exact P.
+  - runner_cases Hr; cbn; unfold after_step; cbn;
+      try match goal with |- context [if cf_all ?c then _ else _] => destruct (cf_all c); cbn end;
+      intros; try discriminate.
+  - runner_cases Hr; cbn; unfold after_step; cbn;
+      try match goal with |- context [if cf_all ?c then _ else _] => destruct (cf_all c); cbn end;
+      intros; try discriminate.
+  - destruct (client_effect_step _ _ _ _ _ Hc) as (_ & Ep & _ & _ & _ & [(E1 & _) | [(E0 & E1 & _) | (E0 & E1 & _)]]);
+      rewrite E1, Ep; try discriminate. exact P.
+Qed.
+
+Definition run_inv (s : state) : Prop := base_inv s /\ stop_inv s /\ pend_ok s.
+
+Lemma run_inv_step : forall cf s t s' l, step cf s t = (s', l) -> run_inv s -> run_inv s'.
+Proof.
+  intros cf s t s' l H (B & S & P).
+  split; [eapply base_step; eauto|]. split; [eapply stop_inv_step; eauto|eapply pend_ok_step; eauto].
+Qed.
+
+Lemma run_inv_reach : forall cf sched s tr, run_schedule cf sched = (s, tr) -> run_inv s.
+Proof.
+  intros cf sched. unfold run_schedule.
+  assert (G : forall sched s0 s tr, run_inv s0 -> run_from cf s0 sched = (s, tr) -> run_inv s).
+  { induction sched0 as [|t sched0 IH]; intros s0 s tr I H; cbn [run_from] in H.
+    - inv H. exact I.
+    - destruct (step cf s0 t) as [s1 l1] eqn:Es. destruct (run_from cf s1 sched0) as [s2 l2] eqn:Er. inv H.
+      eapply IH; [|exact Er]. eapply run_inv_step; eauto. }
+  intros s tr H. eapply G; [|exact H].
+  split; [apply base_init|]. split; [apply stop_inv_init|]. unfold pend_ok; cbn; discriminate.
+Qed.
+
+(* actions the runner can still perform: nothing when it is not running *)
+Definition live_mu (cf : config) (s : state) : nat := if rpc_dead (s_rpc s) then 0%nat else mu cf s.
+
+Definition stopping (s : state) : Prop := in_stop2 (s_cpc s) = true.
+
+Definition is_run (t : tid) : nat := match t with TRun => 1 | _ => 0 end.
+
+Lemma stopping_step : forall cf s t s' l, run_inv s -> stopping s -> step cf s t = (s', l) ->
+  In (TRet O CStop OK) l \/
+  (stopping s' /\ (live_mu cf s' <= live_mu cf s - is_run t)%nat).
+Proof.
+  intros cf s t s' l (B & S & P) St H.
+  pose proof S as (S1 & S2 & S3 & S4). unfold stopping in *.
+  assert (U : s_stop s = true) by (apply S1; destruct (s_cpc s); try discriminate; reflexivity).
+  destruct (S2 St) as [Un Nw].
+  destruct (step_elim _ _ _ _ _ H) as [(-> & -> & Hsk) | [(s1 & a & -> & Hr & [(-> & -> & Hnw) | (Hc & Ha & -> & ->)]) | [-> Hc]]].
+  - right. split; [exact St|]. destruct t; cbn; try lia.
+    specialize (Hsk eq_refl). unfold live_mu.
+    unfold step_runner in Hsk. unfold pend_ok in P.
+    destruct (s_rpc s) eqn:Epc; cbn; try lia; try discriminate; try congruence.
+    + destruct (s_unp s); discriminate.
+    + destruct (s_fin s); discriminate.
+    + destruct (s_stop s); discriminate.
+    + destruct (negb (s_init s)); [discriminate|]. destruct (due_head s); discriminate.
+    + destruct (s_pend s); [discriminate|]. exfalso. apply P; reflexivity.
+  - right. pose proof (mu_runner _ _ _ _ Hr U) as M.
+    assert (C : s_cpc s1 = s_cpc s) by (runner_cases Hr; cbn; unfold after_step; cbn; reflexivity).
+    split; [rewrite C; exact St|].
+    unfold live_mu. cbn [is_run].
+    assert (D : rpc_dead (s_rpc s) = false) by (unfold step_runner in Hr; destruct (s_rpc s); try discriminate; reflexivity).
+    rewrite D. destruct (rpc_dead (s_rpc s1)); lia.
+  - left. right; left; reflexivity.
+  - destruct B as [_ B2].
+    client_cases Hc; try discriminate; cbn.
+    all: try (left; right; left; reflexivity).
+    all: right; (split; [reflexivity|]); unfold live_mu, mu, phi, pop_bump, pend_ins, due_head; cbn;
+         rewrite ?Escr, ?Ecpc; cbn; lia.
+Qed.
+
+Fixpoint run_turns (l : list tid) : nat :=
+  match l with [] => 0 | t :: r => is_run t + run_turns r end%nat.
+
+Lemma stopping_run : forall cf a s s' l, run_inv s -> stopping s -> run_from cf s a = (s', l) ->
+  In (TRet O CStop OK) l \/
+  (run_inv s' /\ stopping s' /\ (live_mu cf s' <= live_mu cf s - run_turns a)%nat).
+Proof.
+  induction a as [|t a IH]; intros s s' l I St H; cbn [run_from] in H.
+  - inv H. right. split; [exact I|]. split; [exact St|]. cbn. lia.
+  - destruct (step cf s t) as [s1 l1] eqn:Es. destruct (run_from cf s1 a) as [s2 l2] eqn:Er. inv H.
+    destruct (stopping_step _ _ _ _ _ I St Es) as [X | [St1 M1]].
+    + left. apply in_or_app. left; exact X.
+    + destruct (IH _ _ _ (run_inv_step _ _ _ _ _ Es I) St1 Er) as [X | (I2 & St2 & M2)].
+      * left. apply in_or_app. right; exact X.
+      * right. split; [exact I2|]. split; [exact St2|]. cbn [run_turns]. lia.
+Qed.
+
+Lemma mu_zero_done : forall cf s, mu cf s = 0%nat -> s_rpc s = PDone.
+Proof. intros cf s H. unfold mu in H. destruct (s_rpc s); try lia; reflexivity. Qed.
+
+(* inside stop() the head of the script is that call *)
+Definition script_ok (s : state) : Prop := in_stop (s_cpc s) = true -> exists rest, s_script s = CStop :: rest.
+
+Lemma script_ok_step : forall cf s t s' l, step cf s t = (s', l) -> script_ok s -> script_ok s'.
+Proof.
+  intros cf s t s' l H P. unfold script_ok in *.
+  destruct (step_elim _ _ _ _ _ H) as [(-> & -> & Hsk) | [(s1 & a & -> & Hr & [(-> & -> & Hnw) | (Hc & Ha & -> & ->)]) | [-> Hc]]].
+  - exact P.
+  - runner_cases Hr; cbn; unfold after_step; cbn; exact P.
+  - cbn. discriminate.
+  - client_cases Hc; rewrite ?Ecpc in *; cbn in *; unfold do_unp_set;
+      try match goal with |- context [match s_rpc ?x with _ => _ end] => destruct (s_rpc x) end; cbn;
+      try discriminate; intros _; eauto.
+Qed.
+
+Lemma script_ok_reach : forall cf sched s tr, run_schedule cf sched = (s, tr) -> script_ok s.
+Proof.
+  intros cf sched. unfold run_schedule.
+  assert (G : forall sched s0 s tr, script_ok s0 -> run_from cf s0 sched = (s, tr) -> script_ok s).
+  { induction sched0 as [|t sched0 IH]; intros s0 s tr I H; cbn [run_from] in H.
+    - inv H. exact I.
+    - destruct (step cf s0 t) as [s1 l1] eqn:Es. destruct (run_from cf s1 sched0) as [s2 l2] eqn:Er. inv H.
+      eapply IH; [|exact Er]. eapply script_ok_step; eauto. }
+  intros s tr H. eapply G; [|exact H]. unfold script_ok; cbn; discriminate.
+Qed.
+
+Lemma dead_other_turn : forall cf s t, rpc_dead (s_rpc s) = true -> t <> TCli O -> step cf s t = (s, [TSkip t]).
+Proof.
+  intros cf s t D N. unfold step. destruct t as [|[|c]]; [|contradiction|reflexivity].
+  unfold step_runner. destruct (s_rpc s); try discriminate; reflexivity.
+Qed.
+
+Lemma dead_client_turn : forall cf s s' l, run_inv s -> script_ok s -> stopping s -> rpc_dead (s_rpc s) = true ->
+  step cf s (TCli O) = (s', l) -> In (TRet O CStop OK) l.
+Proof.
+  intros cf s s' l ([_ B2] & (_ & _ & S3 & _) & _) Sc St D H.
+  rewrite D in B2. cbn in B2. unfold stopping in St.
+  destruct Sc as [rest Escr]; [destruct (s_cpc s); try discriminate; reflexivity|].
+  unfold step, step_client in H. rewrite Escr, B2 in H.
+  destruct (s_cpc s) eqn:Ecpc; try discriminate; inv H.
+  - right; left; reflexivity.
+  - right; left; reflexivity.
+  - rewrite S3 in B2 by reflexivity. discriminate.
+Qed.
+
+Lemma dead_stopping_run : forall cf b s s' l, run_inv s -> script_ok s -> stopping s ->
+  rpc_dead (s_rpc s) = true -> run_from cf s b = (s', l) -> In (TCli O) b -> In (TRet O CStop OK) l.
+Proof.
+  induction b as [|t b IH]; intros s s' l I Sc St D H Hin; [contradiction|].
+  cbn [run_from] in H.
+  destruct (step cf s t) as [s1 l1] eqn:Es. destruct (run_from cf s1 b) as [s2 l2] eqn:Er. inv H.
+  apply in_or_app.
+  assert (Dec : t = TCli O \/ t <> TCli O).
+  { destruct t as [|[|c]]; [right; discriminate|left; reflexivity|right; discriminate]. }
+  destruct Dec as [-> | N].
+  - left. eapply dead_client_turn; eauto.
+  - right. rewrite (dead_other_turn cf s t D N) in Es. inv Es.
+    destruct Hin as [X | Hin]; [congruence|]. eapply IH; eauto.
+Qed.
+
+Lemma script_ok_run : forall cf sched s s' l, run_from cf s sched = (s', l) -> script_ok s -> script_ok s'.
+Proof.
+  induction sched as [|t sched IH]; intros s s' l H U; cbn [run_from] in H.
+  - inv H. exact U.
+  - destruct (step cf s t) as [s1 l1] eqn:Es. destruct (run_from cf s1 sched) as [s2 l2] eqn:Er. inv H.
+    eapply IH; [exact Er|]. eapply script_ok_step; eauto.
+Qed.
+
+(* C20_stop (stop() returns): take any point of any run at which the client is inside stop() and has set
+   both flags.  EVERY continuation of the schedule that gives the runner thread at least mu turns (mu as in
+   C20_stop_bound) and afterwards the client at least one turn makes stop() return.  A fair schedule has such
+   a prefix, so stop() returns under every fair schedule. *)
+Theorem C20_stop_returns : forall cf sched0 s tr a b s' l,
+  run_schedule cf sched0 = (s, tr) ->
+  in_stop2 (s_cpc s) = true ->
+  (mu cf s <= run_turns a)%nat -> In (TCli O) b ->
+  run_from cf s (a ++ b) = (s', l) ->
+  In (TRet O CStop OK) l.
+Proof.
+  intros cf sched0 s tr a b s' l H0 St Ha Hb H.
+  pose proof (run_inv_reach _ _ _ _ H0) as I. pose proof (script_ok_reach _ _ _ _ H0) as Sc.
+  rewrite run_from_app in H. destruct (run_from cf s a) as [s1 l1] eqn:E1.
+  destruct (run_from cf s1 b) as [s2 l2] eqn:E2. inv H. apply in_or_app.
+  destruct (stopping_run _ _ _ _ _ I St E1) as [X | (I1 & St1 & M)]; [left; exact X|].
+  right. eapply dead_stopping_run; eauto.
+  - eapply script_ok_run; eauto.
+  - assert (Z : live_mu cf s1 = 0%nat).
+    { assert (live_mu cf s <= mu cf s)%nat by (unfold live_mu; destruct (rpc_dead (s_rpc s)); lia). lia. }
+    unfold live_mu in Z. destruct (rpc_dead (s_rpc s1)) eqn:D; [reflexivity|].
+    apply mu_zero_done in Z. rewrite Z in D. discriminate.
+Qed.
+
+(* ------------------------------------------------------------------------------------------ *)
+(* C20_events: zero-delay events, one client                                                   *)
+(* ------------------------------------------------------------------------------------------ *)
+Lemma bisect_loop_all_le : forall keys x fuel lo hi,
+  Forall (fun k => (k <= x)%Z) keys -> (lo <= hi)%nat -> (hi <= length keys)%nat -> (hi - lo < fuel)%nat ->
+  bisect_loop fuel keys x lo hi = hi.
+Proof.
+  intros keys x fuel. induction fuel as [|f IH]; intros lo hi Hk H1 H2 H3; [lia|].
+  cbn [bisect_loop]. destruct (Nat.ltb lo hi) eqn:E.
+  - apply Nat.ltb_lt in E.
+    assert (M : (lo <= Nat.div2 (lo + hi) /\ Nat.div2 (lo + hi) < hi)%nat).
+    { rewrite Nat.div2_div. split.
+      - apply Nat.div_le_lower_bound; lia.
+      - apply Nat.div_lt_upper_bound; lia. }
+    assert (N : (nth (Nat.div2 (lo + hi)) keys 0%Z <= x)%Z).
+    { rewrite Forall_forall in Hk. apply Hk. apply nth_In. lia. }
+    destruct (Z.ltb x (nth (Nat.div2 (lo + hi)) keys 0%Z)) eqn:L; [apply Z.ltb_lt in L; lia|].
+    apply IH; try assumption; lia.
+  - apply Nat.ltb_ge in E. lia.
+Qed.
+
+Lemma bisect_right_all_le : forall keys x, Forall (fun k => (k <= x)%Z) keys -> bisect_right keys x = length keys.
+Proof. intros keys x H. unfold bisect_right. apply bisect_loop_all_le; auto; lia. Qed.
+
+Lemma insert_at_beyond : forall (A : Type) i (x : A) l, (length l <= i)%nat -> insert_at i x l = l ++ [x].
+Proof. intros A i x l H. unfold insert_at. rewrite firstn_all2, skipn_all2 by exact H. reflexivity. Qed.
+
+Definition zero_delay_script (l : list call) : Prop :=
+  Forall (fun op => match op with CQueue e => ev_delay e = 0%Z | _ => True end) l.
+
+Fixpoint queued_events (l : list call) : list ev :=
+  match l with [] => [] | CQueue e :: r => e :: queued_events r | _ :: r => queued_events r end.
+
+(* events in the order in which they were put into the queue list: A2 (code as it is) / A1 (atomic switch) *)
+Fixpoint ins_events (atomic : bool) (tr : list titem) : list ev :=
+  match tr with
+  | [] => []
+  | TC _ (AQIdx e _ _) :: r => if atomic then e :: ins_events atomic r else ins_events atomic r
+  | TC _ (AQIns e _ _) :: r => if atomic then ins_events atomic r else e :: ins_events atomic r
+  | _ :: r => ins_events atomic r
+  end.
+
+(* every macro step computed for an event consumed exactly that event *)
+Fixpoint pops_ok (tr : list titem) : Prop :=
+  match tr with
+  | [] => True
+  | TR (AExPop e p) :: r => p = Some e /\ pops_ok r
+  | _ :: r => pops_ok r
+  end.
+
+Lemma ins_events_app : forall at_ a b, ins_events at_ (a ++ b) = ins_events at_ a ++ ins_events at_ b.
+Proof.
+  intros at_. induction a as [|x a IH]; intros b; [reflexivity|].
+  cbn [app ins_events]. destruct x as [| | c ca | |]; try apply IH.
+  destruct ca; try apply IH; destruct at_; try apply IH; cbn [app]; f_equal; apply IH.
+Qed.
+
+Lemma pops_ok_app : forall a b, pops_ok (a ++ b) <-> pops_ok a /\ pops_ok b.
+Proof.
+  induction a as [|x a IH]; intros b; [cbn; tauto|].
+  cbn [app pops_ok]. destruct x as [| r | | |]; try apply IH.
+  destruct r; try apply IH. rewrite IH. tauto.
+Qed.
+
+(* events of the script not yet put into the queue *)
+Definition pend_events (cf : config) (s : state) : list ev :=
+  match s_script s, s_cpc s with
+  | CQueue e :: rest, CQ1 _ _ => if cf_atomic cf then queued_events rest else e :: queued_events rest
+  | l, _ => queued_events l
+  end.
+
+Definition ev_inv (cf : config) (s : state) (tr : list titem) : Prop :=
+  Forall (fun ke => (fst ke <= s_itime s)%Z) (s_queue s) /\
+  (s_itime s <= s_clock s)%Z /\
+  ins_events (cf_atomic cf) tr = popped_events tr ++ map snd (s_queue s) /\
+  zero_delay_script (s_script s) /\
+  (forall idx key, s_cpc s = CQ1 idx key ->
+     (cf_atomic cf = false -> (length (s_queue s) <= idx)%nat /\ (key <= s_itime s)%Z) /\
+     exists e rest, s_script s = CQueue e :: rest) /\
+  (s_rpc s = PExPop -> exists k e rest, s_queue s = (k, e) :: rest /\ s_pend s = Some e) /\
+  pops_ok tr /\
+  queued_events (cf_script cf) = ins_events (cf_atomic cf) tr ++ pend_events cf s.
+
+Lemma Forall_le_trans : forall (q : list (Z * ev)) a b, (a <= b)%Z ->
+  Forall (fun ke => (fst ke <= a)%Z) q -> Forall (fun ke => (fst ke <= b)%Z) q.
+Proof. intros q a b H F. eapply Forall_impl; [|exact F]. cbn. intros; lia. Qed.
+
+Lemma ev_runner : forall cf s s' a tr,
+  step_runner cf s = Some (s', a) -> ev_inv cf s tr -> ev_inv cf s' (tr ++ [TR a]).
+Proof.
+  intros cf s s' a tr H (I1 & I2 & I3 & I4 & I5 & I6 & I7 & I8). unfold ev_inv.
+  rewrite ins_events_app, popped_events_app, pops_ok_app. unfold pend_events in *.
+  runner_cases H; cbn -[Z.le]; unfold after_step; cbn -[Z.le]; rewrite ?app_nil_r;
+    try match goal with |- context [if cf_all ?c then _ else _] => destruct (cf_all c); cbn -[Z.le] end.
+  (* the steps that do not touch queue, times, pend *)
+  all: try (repeat split; try assumption; try (intros; discriminate); fail).
+  all: try (split; [assumption|split; [assumption|split; [assumption|split; [assumption|split; [assumption|
+            split; [discriminate|split; [split; [assumption|exact I]|assumption]]]]]]]; fail).
+  - (* execute_once: _time = clock.time *)
+    split; [eapply Forall_le_trans; eauto|]. split; [lia|]. split; [assumption|]. split; [assumption|].
+    split; [|split; [discriminate|split; [split; [assumption|exact I]|assumption]]].
+    intros idx key X. destruct (I5 idx key X) as [Y Z]. split; [|exact Z].
+    intros W. destruct (Y W). split; [assumption|lia].
+  - (* peek found e *)
+    split; [assumption|]. split; [assumption|]. split; [assumption|]. split; [assumption|]. split; [assumption|].
+    split; [|split; [split; [assumption|exact I]|assumption]].
+    intros _. destruct (due_head_some_queue _ _ Edue) as (k & rest & Q). exists k, e, rest. split; [exact Q|reflexivity].
+  - (* pop, execute_all *)
+    destruct (I6 eq_refl) as (k & e1 & rest & Q & Pd). assert (e1 = e0) by congruence. subst e1.
+    rewrite Q in I1. inv I1. cbn in H1.
+    assert (De : due_head s = Some e0).
+    { unfold due_head. rewrite Q. destruct (Z.leb k (s_itime s)) eqn:L; [reflexivity|apply Z.leb_gt in L; lia]. }
+    rewrite De in Edue. inv Edue.
+    rewrite Q. cbn -[Z.le]. split; [assumption|]. split; [assumption|].
+    split; [rewrite I3, Q; cbn; rewrite <- app_assoc; reflexivity|]. split; [assumption|].
+    split; [|split; [discriminate|split; [split; [assumption|split; [reflexivity|exact I]]|assumption]]].
+    intros idx key X. destruct (I5 idx key X) as [Y Z]. split; [|exact Z].
+    intros W. destruct (Y W). rewrite Q in *. cbn in *. split; [lia|assumption].
+  - (* pop, one step per cycle *)
+    destruct (I6 eq_refl) as (k & e1 & rest & Q & Pd). assert (e1 = e0) by congruence. subst e1.
+    rewrite Q in I1. inv I1. cbn in H1.
+    assert (De : due_head s = Some e0).
+    { unfold due_head. rewrite Q. destruct (Z.leb k (s_itime s)) eqn:L; [reflexivity|apply Z.leb_gt in L; lia]. }
+    rewrite De in Edue. inv Edue.
+    rewrite Q. cbn -[Z.le]. split; [assumption|]. split; [assumption|].
+    split; [rewrite I3, Q; cbn; rewrite <- app_assoc; reflexivity|]. split; [assumption|].
+    split; [|split; [discriminate|split; [split; [assumption|split; [reflexivity|exact I]]|assumption]]].
+    intros idx key X. destruct (I5 idx key X) as [Y Z]. split; [|exact Z].
+    intros W. destruct (Y W). rewrite Q in *. cbn in *. split; [lia|assumption].
+  - (* pop finds nothing due: impossible, the head is the peeked event and it is due *)
+    exfalso. destruct (I6 eq_refl) as (k & e1 & rest & Q & Pd).
+    rewrite Q in I1. inv I1. cbn in H1.
+    unfold due_head in Edue. rewrite Q in Edue.
+    destruct (Z.leb k (s_itime s)) eqn:L; [discriminate|apply Z.leb_gt in L; lia].
+  -
+    exfalso. destruct (I6 eq_refl) as (k & e1 & rest & Q & Pd).
+    rewrite Q in I1. inv I1. cbn in H1.
+    unfold due_head in Edue. rewrite Q in Edue.
+    destruct (Z.leb k (s_itime s)) eqn:L; [discriminate|apply Z.leb_gt in L; lia].
+Qed.
+
+Lemma pend_events_notq : forall cf s, (forall i k, s_cpc s <> CQ1 i k) ->
+  pend_events cf s = queued_events (s_script s).
+Proof.
+  intros cf s H. unfold pend_events. destruct (s_script s) as [|op rest]; [reflexivity|].
+  destruct op; try reflexivity. destruct (s_cpc s) eqn:E; try reflexivity. exfalso. eapply H; eauto.
+Qed.
+
+Lemma zero_delay_tl : forall op rest, zero_delay_script (op :: rest) -> zero_delay_script rest.
+Proof. intros op rest H. inv H. assumption. Qed.
+
+Lemma ev_frame : forall cf s s' tr l,
+  s_queue s' = s_queue s -> s_itime s' = s_itime s -> (s_clock s <= s_clock s')%Z ->
+  ins_events (cf_atomic cf) l = [] -> popped_events l = [] -> pops_ok l ->
+  zero_delay_script (s_script s') ->
+  (forall i k, s_cpc s' <> CQ1 i k) ->
+  (s_rpc s' = PExPop -> s_rpc s = PExPop) -> s_pend s' = s_pend s ->
+  queued_events (s_script s') = pend_events cf s ->
+  ev_inv cf s tr -> ev_inv cf s' (tr ++ l).
+Proof.
+  intros cf s s' tr l Eq Et Ec Ei Ep Eo Ez En Er Epd Eqe (I1 & I2 & I3 & I4 & I5 & I6 & I7 & I8).
+  unfold ev_inv. rewrite ins_events_app, popped_events_app, pops_ok_app, Ei, Ep, !app_nil_r, Eq, Et, Epd.
+  split; [assumption|]. split; [lia|]. split; [assumption|]. split; [assumption|].
+  split; [intros i k X; exfalso; eapply En; eauto|].
+  split; [intros X; apply I6; auto|]. split; [split; assumption|].
+  rewrite (pend_events_notq cf s' En), Eqe. exact I8.
+Qed.
+
+Lemma do_unp_set_pexpop : forall s, s_rpc (do_unp_set s) = PExPop -> s_rpc s = PExPop.
+Proof. intros s. unfold do_unp_set. destruct (s_rpc s) eqn:E; cbn; rewrite ?E; auto; discriminate. Qed.
+
+Lemma do_unp_set_fields : forall s,
+  s_queue (do_unp_set s) = s_queue s /\ s_itime (do_unp_set s) = s_itime s /\
+  s_clock (do_unp_set s) = s_clock s /\ s_pend (do_unp_set s) = s_pend s /\
+  s_script (do_unp_set s) = s_script s /\ s_cpc (do_unp_set s) = s_cpc s.
+Proof. intros s. unfold do_unp_set. destruct (s_rpc s); cbn; repeat split; reflexivity. Qed.
+
+Lemma ev_client : forall cf c s s' l tr,
+  step_client cf c s = Some (s', l) -> ev_inv cf s tr -> ev_inv cf s' (tr ++ l).
+Proof.
+  intros cf c s s' l tr H I.
+  client_cases H.
+  all: try (eapply ev_frame; try exact I; unfold ret; cbn;
+            try (destruct (do_unp_set_fields s) as (F1 & F2 & F3 & F4 & F5 & F6); rewrite ?F1, ?F2, ?F3, ?F4, ?F5, ?F6);
+            rewrite ?Escr; cbn;
+            try reflexivity; try lia; try discriminate; try exact I; try (intros; discriminate);
+            try (apply Z.leb_le; assumption); try apply do_unp_set_pexpop; try (intros X; exact X);
+            try (destruct I as (_ & _ & _ & I4 & _); rewrite Escr in I4; first [exact I4 | eapply zero_delay_tl; exact I4]);
+            try (unfold pend_events; rewrite Escr, ?Ecpc; reflexivity); fail).
+  - (* A1, atomic switch on: bisect + insert in one action *)
+    destruct I as (I1 & I2 & I3 & I4 & I5 & I6 & I7 & I8).
+    rewrite Escr in I4. inv I4. cbn in H1. rewrite H1, Z.add_0_r.
+    assert (Bi : bisect_right (queue_keys s) (s_itime s) = length (s_queue s)).
+    { unfold queue_keys. rewrite bisect_right_all_le; [apply map_length|].
+      apply Forall_map. exact I1. }
+    rewrite Bi, insert_at_beyond by lia.
+    unfold ev_inv. rewrite ins_events_app, popped_events_app, pops_ok_app. rewrite Eb in *. cbn -[Z.le]. rewrite ?Escr.
+    rewrite !app_nil_r.
+    split; [apply Forall_app; split; [exact I1|constructor; [cbn; lia|constructor]]|].
+    split; [assumption|].
+    split; [rewrite map_app, I3, <- app_assoc; reflexivity|].
+    split; [constructor; assumption|].
+    split; [intros idx key X; split; [intros W; discriminate|eauto]|].
+    split; [intros X; destruct (I6 X) as (k & e0 & r0 & Q & Pd); rewrite Q; cbn; eauto|].
+    split; [split; [assumption|exact I]|].
+    rewrite I8. unfold pend_events. cbn. rewrite ?Escr, ?Ecpc, ?Eb. cbn. rewrite <- ?app_assoc. reflexivity.
+  - (* A1, code as it is: the index is computed, nothing is inserted yet *)
+    destruct I as (I1 & I2 & I3 & I4 & I5 & I6 & I7 & I8).
+    pose proof I4 as I4'. rewrite Escr in I4'. inv I4'. cbn in H1. rewrite H1, Z.add_0_r.
+    assert (Bi : bisect_right (queue_keys s) (s_itime s) = length (s_queue s)).
+    { unfold queue_keys. rewrite bisect_right_all_le; [apply map_length|].
+      apply Forall_map. exact I1. }
+    rewrite Bi.
+    unfold ev_inv. rewrite ins_events_app, popped_events_app, pops_ok_app. rewrite Eb in *. cbn -[Z.le]. rewrite ?Escr.
+    rewrite !app_nil_r.
+    split; [assumption|]. split; [assumption|]. split; [assumption|].
+    split; [constructor; assumption|].
+    split; [intros idx key X; inv X; split; [intros _; split; lia|eauto]|].
+    split; [assumption|]. split; [split; [assumption|exact I]|].
+    rewrite I8. unfold pend_events. cbn. rewrite ?Escr, ?Ecpc, ?Eb. cbn. reflexivity.
+  - (* A2, atomic switch on: nothing left to do *)
+    destruct I as (I1 & I2 & I3 & I4 & I5 & I6 & I7 & I8).
+    unfold ev_inv, ret. rewrite ins_events_app, popped_events_app, pops_ok_app. rewrite Eb in *. cbn -[Z.le].
+    rewrite !app_nil_r.
+    split; [assumption|]. split; [assumption|]. split; [assumption|].
+    split; [rewrite ?Escr in *; cbn [tl]; eapply zero_delay_tl; exact I4|].
+    split; [intros idx0 key0 X; discriminate|].
+    split; [assumption|]. split; [split; [assumption|exact I]|].
+    rewrite I8. unfold pend_events at 1. rewrite ?Escr, ?Ecpc, ?Eb.
+    rewrite pend_events_notq by (cbn; intros; discriminate). reflexivity.
+  - (* A2, code as it is: insert at the index computed earlier -- beyond the end, i.e. append *)
+    destruct I as (I1 & I2 & I3 & I4 & I5 & I6 & I7 & I8).
+    destruct (I5 idx key Ecpc) as [Y _]. destruct (Y Eb) as [Y1 Y2].
+    rewrite insert_at_beyond by exact Y1.
+    unfold ev_inv, ret. rewrite ins_events_app, popped_events_app, pops_ok_app. rewrite Eb in *. cbn -[Z.le].
+    rewrite !app_nil_r.
+    split; [apply Forall_app; split; [exact I1|constructor; [cbn; lia|constructor]]|].
+    split; [assumption|].
+    split; [rewrite map_app, I3, <- app_assoc; reflexivity|].
+    split; [rewrite ?Escr in *; cbn [tl]; eapply zero_delay_tl; exact I4|].
+    split; [intros idx0 key0 X; discriminate|].
+    split; [intros X; destruct (I6 X) as (k & e0 & r0 & Q & Pd); rewrite Q; cbn; eauto|].
+    split; [split; [assumption|exact I]|].
+    rewrite I8. unfold pend_events at 1. rewrite ?Escr, ?Ecpc, ?Eb.
+    rewrite pend_events_notq by (cbn; intros; discriminate). cbn. rewrite <- app_assoc. reflexivity.
+Qed.
+
+Lemma ev_silent : forall cf s tr l,
+  ins_events (cf_atomic cf) l = [] -> popped_events l = [] -> pops_ok l ->
+  ev_inv cf s tr -> ev_inv cf s (tr ++ l).
+Proof.
+  intros cf s tr l E1 E2 E3 (I1 & I2 & I3 & I4 & I5 & I6 & I7 & I8). unfold ev_inv.
+  rewrite ins_events_app, popped_events_app, pops_ok_app, E1, E2, !app_nil_r.
+  repeat (split; try assumption).
+Qed.
+
+Lemma ev_step : forall cf s tr t s' l,
+  script_ok s /\ ev_inv cf s tr -> step cf s t = (s', l) -> script_ok s' /\ ev_inv cf s' (tr ++ l).
+Proof.
+  intros cf s tr t s' l [Sc I] H. split; [eapply script_ok_step; eauto|].
+  destruct (step_elim _ _ _ _ _ H) as [(-> & -> & Hsk) | [(s1 & a & -> & Hr & [(-> & -> & Hnw) | (Hc & Ha & -> & ->)]) | [-> Hc]]].
+    apply ev_silent; try reflexivity; try exact I0; exact I.
+  - eapply ev_runner; eauto.
+  - (* the runner thread ends and releases the client blocked in join: stop() returns *)
+    change [TR a; TRet 0 CStop OK] with ([TR a] ++ [TRet 0 CStop OK]). rewrite app_assoc.
+    pose proof (ev_runner _ _ _ _ _ Hr I) as I'.
+    assert (Sc1 : script_ok s1).
+    { unfold script_ok in *. runner_cases Hr; cbn; unfold after_step; cbn; exact Sc. }
+    destruct Sc1 as [rest Escr]; [rewrite Hc; reflexivity|].
+    eapply ev_frame; try exact I'; unfold ret; cbn; try reflexivity; try lia; try (intros; discriminate);
+      try (intros X; exact X).
+    + destruct I' as (_ & _ & _ & I4 & _). rewrite Escr in *. cbn. eapply zero_delay_tl; exact I4.
+    + unfold pend_events. rewrite Escr. reflexivity.
+  - eapply ev_client; eauto.
+Qed.
+
+(* C20_events (zero-delay events, one client, EVERY schedule, with or without the atomic switch):
+   - the events put into the queue so far are, in order, the events consumed so far followed by the queue
+     content: consumption is FIFO, nothing is lost, nothing is consumed twice;
+   - every macro step computed for an event consumed exactly that event;
+   - the events put into the queue are a prefix of the events the script queues, in script order;
+   - whenever execute_once found nothing to do, every event put into the queue had been consumed
+     (an event is consumable as soon as it is queued). *)
+Theorem C20_events : forall cf sched s tr,
+  zero_delay_script (cf_script cf) ->
+  run_schedule cf sched = (s, tr) ->
+  ins_events (cf_atomic cf) tr = popped_events tr ++ map snd (s_queue s) /\
+  pops_ok tr /\
+  (exists rest, queued_events (cf_script cf) = ins_events (cf_atomic cf) tr ++ rest) /\
+  (forall tr0, tr = tr0 ++ [TR (AExPeek PkNone)] -> ins_events (cf_atomic cf) tr0 = popped_events tr0).
+Proof.
+  intros cf sched s tr Z H.
+  assert (G : forall sched s tr, run_schedule cf sched = (s, tr) -> script_ok s /\ ev_inv cf s tr).
+  { intros sched0 s0 tr0 H0.
+    eapply (run_schedule_inv cf (fun s tr => script_ok s /\ ev_inv cf s tr)); [apply ev_step| |exact H0].
+    split; [unfold script_ok; cbn; discriminate|].
+    unfold ev_inv; cbn -[Z.le]. split; [constructor|]. split; [lia|]. split; [reflexivity|].
+    split; [exact Z|]. split; [intros; discriminate|]. split; [discriminate|]. split; [exact I|].
+    unfold pend_events; cbn. destruct (cf_script cf) as [|[]]; reflexivity. }
+  destruct (G _ _ _ H) as [_ (I1 & I2 & I3 & I4 & I5 & I6 & I7 & I8)].
+  split; [exact I3|]. split; [exact I7|]. split; [eexists; exact I8|].
+  intros tr0 ->.
+  destruct (run_from_last _ _ _ _ _ _ H) as (sched0 & t & s0 & l0 & l1 & _ & H0 & Hs & E & L).
+  destruct (G _ _ _ H0) as [_ (J1 & J2 & J3 & J4 & J5 & J6 & J7 & J8)].
+  destruct (step_elim _ _ _ _ _ Hs) as [(-> & -> & Hsk) | [(s1 & a & -> & Hr & [(-> & -> & Hnw) | (Hc & Ha & -> & ->)]) | [-> Hc]]];
+    cbn in L; try discriminate.
+  - inv L. apply app_inj_tail in E. destruct E as [-> _].
+    assert (Edue : due_head s0 = None).
+    { unfold step_runner in Hr. destruct (s_rpc s0); try discriminate;
+        repeat match type of Hr with
+               | context [if ?b then _ else _] => destruct b
+               | context [match due_head ?x with _ => _ end] => destruct (due_head x) eqn:?
+               | context [match s_pend ?x with _ => _ end] => destruct (s_pend x)
+               end; try discriminate; try reflexivity; inv Hr. }
+    (* due_head = None: the queue is empty, since every key in it is due *)
+    unfold due_head in Edue. destruct (s_queue s0) as [|[k e] q] eqn:Q.
+    + rewrite J3. cbn. apply app_nil_r.
+    + apply Forall_inv in J1. cbn in J1. destruct (Z.leb k (s_itime s0)) eqn:Lk; [discriminate|apply Z.leb_gt in Lk; lia].
+  - client_cases Hc; cbn in L; discriminate.
+Qed.
+
+(* ------------------------------------------------------------------------------------------ *)
+(* C20_events_refuted: delayed events, code as it is (cf_atomic = false)                        *)
+(* ------------------------------------------------------------------------------------------ *)
+Definition we1 := mk_ev 1 false 0.
+Definition we2 := mk_ev 2 false 5.
+Definition we3 := mk_ev 3 false 0.
+
+(* queue [(0,e1),(5,e2)]; the client computes index 1 for (0,e3) (A1); the runner pops e1; the client
+   inserts at 1 (A2): [(5,e2),(0,e3)]; the next execute_once finds nothing although e3 is due. *)
+Definition w_script : list call := [CQueue we1; CQueue we2; CStart; CQueue we3; CStop].
+Definition w_sched : list tid :=
+  repeat (TCli 0) 8 ++ repeat TRun 14 ++ [TCli 0; TRun; TCli 0] ++ repeat TRun 7.
+Definition w_cf (atomic : bool) : config := mk_config ChPlain false atomic w_script.
+
+Theorem C20_events_refuted :
+  exists s tr0,
+    run_schedule (w_cf false) w_sched = (s, tr0 ++ [TR (AExPeek PkNone)]) /\
+    exists k e, In (k, e) (s_queue s) /\ (k <= s_itime s)%Z /\
+                In e (ins_events false tr0) /\ ~ In e (popped_events tr0).
+Proof.
+  exists (fst (run_schedule (w_cf false) w_sched)), (removelast (snd (run_schedule (w_cf false) w_sched))).
+  split; [vm_compute; reflexivity|].
+  exists 0%Z, we3. vm_compute. split; [right; left; reflexivity|]. split; [discriminate|].
+  split; [right; right; left; reflexivity|]. intros [X|[]]. discriminate X.
+Qed.
+
+(* the same schedule with bisect+insert atomic: the queue is [(0,e3),(5,e2)]; e3 is peeked, then consumed *)
+Example C20_events_witness_atomic_ok :
+  last (snd (run_schedule (w_cf true) w_sched)) (TSkip TRun) = TR (AExPeek (PkSome we3)) /\
+  popped_events (snd (run_schedule (w_cf true) (w_sched ++ [TRun]))) = [we1; we3].
+Proof. vm_compute. split; reflexivity. Qed.
+
+(* second manifestation: the step computed for the peeked event consumes another event *)
+Definition w2_script : list call := [CQueue (mk_ev 1 false 5); CStart; CClock 5; CQueue (mk_ev 2 false 0); CStop].
+Definition w2_sched : list tid :=
+  repeat (TCli 0) 6 ++ repeat TRun 8 ++ [TCli 0; TCli 0] ++ repeat TRun 6 ++ [TCli 0; TRun].
+
+Theorem C20_events_refuted_pop :
+  ~ pops_ok (snd (run_schedule (mk_config ChPlain false false w2_script) w2_sched)).
+Proof. vm_compute. intros [X _]. discriminate X. Qed.
+
+(* ------------------------------------------------------------------------------------------ *)
+(* non-vacuity: concrete instances of the hypotheses of the theorems above                     *)
+(* ------------------------------------------------------------------------------------------ *)
+Definition x_script : list call :=
+  [CQueue (mk_ev 1 false 0); CStart; CQueue (mk_ev 2 false 0); CPause; CQueue (mk_ev 3 false 0); CUnpause; CStop].
+Definition x_cf : config := mk_config ChPlain false false x_script.
+(* client: queue e1, start; runner: first cycle; client: A1 of e2; runner: 3 actions; client: A2, pause ... *)
+Definition x_sched1 : list tid :=
+  repeat (TCli 0) 6 ++ repeat TRun 8 ++ [TCli 0] ++ repeat TRun 3 ++ [TCli 0; TCli 0].
+Definition x_sched2 : list tid := repeat TRun 12 ++ [TCli 0; TCli 0].
+Definition x_tail : list tid := [TCli 0] ++ repeat TRun 16 ++ repeat (TCli 0) 4 ++ repeat TRun 6.
+
+Example C20_report_ex :
+  let tr := snd (run_schedule x_cf (x_sched1 ++ x_sched2 ++ x_tail)) in
+  executed tr = [MInit; MEv (mk_ev 1 false 0) (Some (mk_ev 1 false 0));
+                 MEv (mk_ev 2 false 0) (Some (mk_ev 2 false 0)); MEv (mk_ev 3 false 0) (Some (mk_ev 3 false 0))] /\
+  handed tr = executed tr /\ count_ract is_before_run tr = 1%nat /\ count_ract is_after_run tr = 1%nat.
+Proof. vm_compute. repeat split; reflexivity. Qed.
+
+(* pause() has just returned after x_sched1; in x_sched2 (no unpause) exactly one cycle begins *)
+Example C20_pause_ex :
+  exists s1 tr0 s2 mid,
+    run_schedule x_cf x_sched1 = (s1, tr0 ++ [TRet 0 CPause OK]) /\
+    run_from x_cf s1 x_sched2 = (s2, mid) /\ no_unp_set mid /\ count_ract is_before_exec mid = 1%nat.
+Proof.
+  exists (fst (run_schedule x_cf x_sched1)), (removelast (snd (run_schedule x_cf x_sched1))).
+  exists (fst (run_from x_cf (fst (run_schedule x_cf x_sched1)) x_sched2)),
+         (snd (run_from x_cf (fst (run_schedule x_cf x_sched1)) x_sched2)).
+  vm_compute. repeat split; reflexivity.
+Qed.
+
+Definition f_cf : config :=
+  mk_config ChFin true false [CQueue (mk_ev 1 false 0); CQueue (mk_ev 2 true 0); CStart; CStop].
+
+Example C20_final_ex :
+  exists s1 tr0 s2 l,
+    run_schedule f_cf (repeat (TCli 0) 8 ++ repeat TRun 18) = (s1, tr0 ++ [TR (ATestFinal true)]) /\
+    run_from f_cf s1 (repeat TRun 5) = (s2, l) /\ ractions l = [AStopSet; AAfterRun] /\ s_stop s2 = true.
+Proof.
+  exists (fst (run_schedule f_cf (repeat (TCli 0) 8 ++ repeat TRun 18))),
+         (removelast (snd (run_schedule f_cf (repeat (TCli 0) 8 ++ repeat TRun 18)))).
+  exists (fst (run_from f_cf (fst (run_schedule f_cf (repeat (TCli 0) 8 ++ repeat TRun 18))) (repeat TRun 5))),
+         (snd (run_from f_cf (fst (run_schedule f_cf (repeat (TCli 0) 8 ++ repeat TRun 18))) (repeat TRun 5))).
+  vm_compute. repeat split; reflexivity.
+Qed.
+
+(* the client is inside stop() with both flags set while the runner is in the middle of a cycle *)
+Example C20_stop_ex :
+  let s := fst (run_schedule x_cf (repeat (TCli 0) 6 ++ repeat TRun 6 ++ repeat (TCli 0) 9)) in
+  in_stop2 (s_cpc s) = true /\ s_stop s = true /\ s_alive s = true /\ mu x_cf s = 8%nat /\
+  In (TRet 0 CStop OK) (snd (run_from x_cf s (repeat TRun 8 ++ [TCli 0]))).
+Proof. vm_compute. repeat split; try reflexivity. right; right; right; right; right; right; right; right; right; left. reflexivity. Qed.
+
+Example C20_events_ex :
+  zero_delay_script (cf_script x_cf) /\
+  popped_events (snd (run_schedule x_cf (x_sched1 ++ x_sched2 ++ x_tail)))
+  = [mk_ev 1 false 0; mk_ev 2 false 0; mk_ev 3 false 0].
+Proof. split; [repeat constructor|vm_compute; reflexivity]. Qed.
+
+Print Assumptions C20_report.
+Print Assumptions C20_hooks.
+Print Assumptions C20_pause.
+Print Assumptions C20_final.
+Print Assumptions C20_final_meaning.
+Print Assumptions C20_final_test.
+Print Assumptions C20_stop_bound.
+Print Assumptions C20_stop_quiet.
+Print Assumptions C20_stop_returns.
+Print Assumptions C20_events.
+Print Assumptions C20_events_refuted.
+Print Assumptions C20_events_refuted_pop.
